@@ -11,6 +11,10 @@
 //!  3. ORACLE (ii): every operation at the requested sizes on a thread with a 2 MiB stack in a
 //!     SUBPROCESS of this very binary (so in the profile it was built with): a stack overflow
 //!     aborts the child, the parent reports which operation, size and profile.
+//!     The operations: STATIC_OPS + generated_ops (every skip position of every matching iterator)
+//!     + WIDE_OPS (the remaining arms of the anchored files) + LOOP_OPS (every loop over data of
+//!     the parsers, serializers, stores and source adapters driven with a large count of the thing
+//!     it iterates over); `x-sparql-*` (size of the QUERY) are exploration, recorded, not judged.
 use sophia_api::dataset::{Dataset, MutableDataset};
 use sophia_api::graph::{Graph, MutableGraph};
 use sophia_api::prelude::*;
@@ -122,7 +126,7 @@ fn generated_ops() -> Vec<(String, String)> {
 }
 fn ops() -> &'static [(&'static str, &'static str)] {
     static ALL: std::sync::OnceLock<Vec<(&'static str, &'static str)>> = std::sync::OnceLock::new();
-    ALL.get_or_init(|| { let mut v: Vec<(&'static str, &'static str)> = STATIC_OPS.to_vec(); for (a, b) in generated_ops() { v.push((Box::leak(a.into_boxed_str()), Box::leak(b.into_boxed_str()))); } v })
+    ALL.get_or_init(|| { let mut v: Vec<(&'static str, &'static str)> = STATIC_OPS.to_vec(); for (a, b) in generated_ops() { v.push((Box::leak(a.into_boxed_str()), Box::leak(b.into_boxed_str()))); } v.extend_from_slice(WIDE_OPS); v.extend_from_slice(LOOP_OPS); v })
 }
 /// matchers of the generated iterator operations
 enum SM { K(ST), AnyM, Last }
@@ -318,6 +322,20 @@ fn run_op(op: &str, n: usize) -> u64 {
             let c = b.into_iter().filter(|r| r.is_ok()).count() as u64;
             if op == "sparql-bgp" { n as u64 - c } else { c }
         }
+        o if WIDE_OPS.iter().any(|(k, _)| *k == o) => run_wide(o, n),
+        o if LOOP_OPS.iter().any(|(k, _)| *k == o) => run_loop(o, n),
+        // exploration only (not in the table of operations): the size of the QUERY, on 3 triples
+        "x-sparql-keys" | "x-sparql-patterns" | "x-sparql-unions" => {
+            let mut d = FastDataset::new();
+            for i in 0..3 { d.insert(s_i(i), iri("x:p"), lit(7), None::<ST>).unwrap(); }
+            let q = match op {
+                "x-sparql-keys" => format!("SELECT ?s {{ ?s <x:p> ?o }} ORDER BY {} ?s", "?o ".repeat(n)),
+                "x-sparql-patterns" => format!("SELECT ?s {{ {} }}", "?s <x:p> ?o . ".repeat(n)),
+                _ => format!("SELECT ?s {{ {} }}", vec!["{ ?s <x:p> ?o }"; n].join(" UNION ")),
+            };
+            if std::env::var("C16_PARSE_ONLY").is_ok() { use sophia_sparql::SparqlQuery; let _q: SparqlQuery<FastDataset> = SparqlQuery::parse(&q).unwrap(); return n as u64; }
+            match sparql_run(&d, &q) { Ok((c, 0)) if c == if op == "x-sparql-unions" { 3 * n as u64 } else { 3 } => n as u64, r => { eprintln!("{:?}", r.map_err(|e| e.chars().take(200).collect::<String>())); 0 } }
+        }
         _ => panic!("unknown operation {op}"),
     }
 }
@@ -325,9 +343,923 @@ fn run_op(op: &str, n: usize) -> u64 {
 fn expected(op: &str, n: usize) -> Option<u64> {
     match op {
         o if o.starts_with("it-") || o.starts_with("spo-") || o.starts_with("bc-") || o.starts_with("gspo-") || o.starts_with("bcd-") || o.starts_with("cd-") => Some(1),
-        "nt-escape" | "nq-escape" | "ttl-escape" => None, // byte count, checked > 2n below
+        o if o.contains("-escape") => None, // byte count, checked > 2n below
         "insert-remove" => Some((n + (n + 3) / 7) as u64),
         _ => Some(n as u64),
+    }
+}
+
+// ---------------------------------------------------------------------------------------------
+// operations added after the coverage report: the remaining arms of the anchored files
+// (nt.rs terms of every kind, _pretty.rs named graphs / property and object lists / annotations /
+// cycles / damaged lists, exec.rs FROM / UNION / BIND / DISTINCT / OFFSET / ASK / GRAPH <iri> /
+// EXISTS / unsupported forms / failing datasets, bgp.rs joins, engine.rs named graphs / @type /
+// native types / compound literals / cyclic lists / JSON literals, term.rs eq / cmp / hash on
+// every kind and the provided methods of the native term types), each at large sizes.
+// Every operation checks its own functional summary and returns n when it is right.
+// ---------------------------------------------------------------------------------------------
+const WIDE_OPS: &[(&str, &str)] = &[
+    ("nt-kinds", "NtSerializer::new_with_config(NtConfig::set_ascii(false)) on n triples going through every kind of term (blank nodes, language-tagged and typed literals, quoted triples two deep), read back by the N-Triples parser and compared term by term"),
+    ("nq-kinds", "NqSerializer on n generalized quads (variables, IRI / blank node / absent graph names), read back by the generalized N-Quads parser and compared term by term"),
+    ("nt-escape-lang", "NtSerializer on one language-tagged literal with n escaped characters"),
+    ("nt-escape-dt", "NtSerializer on one typed literal with n escaped characters"),
+    ("nt-escape-quoted", "nt::write_triple on a triple whose object is a quoted triple holding a literal with n escaped characters"),
+    ("trig-graphs", "pretty TrigSerializer on n named graphs (IRI and blank node names, a blank node shared by many graphs)"),
+    ("ttl-wide", "pretty TurtleSerializer on one subject with n predicates, n objects of one predicate and n rdf:type objects"),
+    ("ttl-annot", "pretty TurtleSerializer on n annotated asserted triples, quoted triples as subjects and objects (with blank nodes inside)"),
+    ("ttl-kinds", "pretty TurtleSerializer (prefix map) on n generalized statements: language-tagged, typed and native literals, rdf:nil, prefixed / relative IRIs, [] subjects, labelled blank nodes, variables; read back by the generalized TriG parser"),
+    ("ttl-cycle", "pretty TurtleSerializer on a cycle of n blank nodes plus a chain of n blank nodes hanging from a labelled node"),
+    ("ttl-lists-bad", "pretty TurtleSerializer on n small lists (well-formed, shared head, shared tail, extra property, two rdf:first) plus one list of n cells damaged in the middle"),
+    ("sparql-from", "SELECT ?s FROM <x:g> { ?s <x:p> ?o } over n triples of one named graph"),
+    ("sparql-unsupported", "every form the wrapper does not implement (FROM NAMED, path, join, OPTIONAL, MINUS, VALUES, REDUCED, GROUP BY, SERVICE, CONSTRUCT, DESCRIBE) over n quads in n/2 named graphs: an error value each"),
+    ("sparql-union", "SELECT ?s ?o { {..} UNION {..} UNION {..} UNION {..} } over n triples"),
+    ("sparql-extend", "SELECT ?s ?x { ?s <x:p> ?o BIND(STR(?o) AS ?x) } over n triples"),
+    ("sparql-distinct", "SELECT DISTINCT ?o over n triples with 3 distinct objects (n-3 solutions skipped)"),
+    ("sparql-slice", "SELECT ?s { ?s <x:p> ?o } OFFSET n-1 LIMIT 5 / LIMIT 7 / OFFSET n+5 over n triples"),
+    ("sparql-ask", "ASK { ?s <x:p> ?o } and ASK with a filter rejecting all n solutions"),
+    ("sparql-graph-const", "SELECT ?s { GRAPH <x:g7> { ?s ?p ?o } } and GRAPH <x:absent> over n named graphs"),
+    ("sparql-exists", "FILTER [NOT] EXISTS over n/2 solutions of the default graph (one sub-evaluation per solution), and GRAPH ?g {..} FILTER [NOT] EXISTS { GRAPH ?g {..} } (GRAPH variable bound from outside) over n quads in 100 named graphs"),
+    ("sparql-errors", "a dataset whose iterators end with an error: GRAPH ?g { .. FILTER(true) } over n named graphs (n error items flow through bgp, filter and the per-graph join), ORDER BY (error value), failing graph_names"),
+    ("sparql-order-multi", "SELECT ?s { {..} UNION {..} } ORDER BY ?nope ?o DESC(?s) over n triples (unbound keys)"),
+    ("sparql-bgp-join", "basic graph patterns of 3 triple patterns over 3n triples: a ground pattern, n intermediate solutions, a variable repeated in one pattern (n candidate rows rejected)"),
+    ("jsonld-graphs", "JsonLdSerializer on n named graphs of one statement each"),
+    ("jsonld-graph-nodes", "JsonLdSerializer on n subjects in n/100 named graphs of 100 subjects each"),
+    ("jsonld-types", "JsonLdSerializer on n typed subjects plus n/100 subjects with 100 types each, with and without use_rdf_type"),
+    ("jsonld-kinds", "JsonLdSerializer (use_native_types, rdfDirection i18n-datatype) on n statements: language-tagged strings, integers, doubles, booleans, i18n datatypes, other datatypes, IRI and blank node objects, rdf:JSON literals"),
+    ("jsonld-compound", "JsonLdSerializer (rdfDirection compound-literal) on n compound literals"),
+    ("jsonld-list-cycle", "JsonLdSerializer on one list of n cells whose last item is the list itself (unanchored: nothing may disappear)"),
+    ("jsonld-shared", "JsonLdSerializer on a blank node with n parents and n/4 one-cell lists whose cell also occurs in another graph"),
+    ("jsonld-list10", "JsonLdSerializer in json-ld-1.0 mode on one list of n items, one of which is a list"),
+    ("jsonld-json-literal", "JsonLdSerializer on one rdf:JSON literal holding a flat array of n numbers"),
+    ("term-ord", "Term::cmp / eq / hash on n terms of every kind (variables, language-tagged literals, quoted triples), owned and through &T: sort, dedup, hash"),
+    ("term-native", "the provided methods of Term (is_literal, is_variable, variable, eq, cmp) on n IriRef / BnodeId / VarName / i32 / str terms"),
+    ("term-nested", "constituents / to_constituents / atoms / to_atoms / eq / cmp / hash of n quoted triples nested 4 deep"),
+];
+
+fn xsd(s: &str) -> String { format!("{XSD}{s}") }
+const RDF_TYPE: &str = "http://www.w3.org/1999/02/22-rdf-syntax-ns#type";
+/// statement number i of a stream that goes through every kind of term (distinct for distinct i)
+fn kinds_triple(i: usize, generalized: bool) -> [ST; 3] {
+    let s = match i % 4 {
+        0 => s_i(i),
+        1 => bnode(&format!("b{i}")),
+        2 => triple(s_i(i), iri("x:p"), lit(i)),
+        _ => triple(triple(bnode(&format!("q{i}")), iri("x:p"), lit_lang("a\"b\\c\nd", "en")), iri("x:q"), s_i(i)),
+    };
+    let o = match i % 6 {
+        0 => lit(i),
+        1 => lit_lang(&format!("chat\n\"{i}\""), "fr-FR"),
+        2 => lit_dt(&format!("{i}"), &xsd("integer")),
+        3 => bnode(&format!("o{i}")),
+        4 => triple(bnode(&format!("o{i}")), iri("x:p"), lit_dt("\r\\", "x:dt")),
+        _ => if generalized { var(&format!("v{i}")) } else { iri(&format!("x:o{i}")) },
+    };
+    [s, iri(&format!("x:p{}", i % 3)), o]
+}
+/// io::Write sink that probes at each call and keeps the bytes
+struct ProbeVec(Vec<u8>);
+impl std::io::Write for ProbeVec {
+    fn write(&mut self, b: &[u8]) -> std::io::Result<usize> { probe(); self.0.extend_from_slice(b); Ok(b.len()) }
+    fn flush(&mut self) -> std::io::Result<()> { Ok(()) }
+}
+type Q = ([ST; 3], Option<ST>);
+/// pretty Turtle / TriG there and back: the quads read back must be as many as the quads
+/// written, and (small sizes) the same dataset up to blank node labels.  `expect`: what the
+/// reader is expected to return when it is not literally the input (relative IRIs resolved).
+fn pretty_there_and_back(quads: Vec<Q>, expect: Option<Vec<Q>>, trig: bool, generalized: bool, n: usize) -> bool {
+    use sophia_api::parser::QuadParser;
+    let pm = vec![(sophia_api::prefix::Prefix::new_unchecked("ex".into()), sophia_iri::Iri::new_unchecked("http://example.org/ns/".into()))];
+    let cfg = sophia_turtle::serializer::turtle::TurtleConfig::new().with_pretty(true).with_own_prefix_map(pm);
+    let len = quads.len();
+    let orig: Vec<Q> = match expect { Some(e) => e, None => if n <= 300 { quads.clone() } else { vec![] } };
+    let out = if trig {
+        let mut sink = ProbeVec(vec![]);
+        sophia_turtle::serializer::trig::TrigSerializer::new_with_config(&mut sink, cfg).serialize_quads(quads.into_iter().into_source()).unwrap();
+        sink.0
+    } else {
+        assert!(quads.iter().all(|q| q.1.is_none()));
+        let mut sink = ProbeVec(vec![]);
+        sophia_turtle::serializer::turtle::TurtleSerializer::new_with_config(&mut sink, cfg).serialize_triples(quads.into_iter().map(|q| q.0).into_source()).unwrap();
+        sink.0
+    };
+    let back: Vec<Q> = if generalized {
+        let p = sophia_turtle::parser::gtrig::GTriGParser { base: Some(sophia_iri::Iri::new_unchecked("http://base/".to_string())) };
+        match p.parse(&out[..]).collect_quads() { Ok(b) => b, Err(e) => panic!("the generalized TriG parser rejects the serializer's output: {e:?}\n{}", String::from_utf8_lossy(&out[..out.len().min(3000)])) }
+    } else {
+        match sophia_turtle::parser::trig::parse_bufread(&out[..]).collect_quads() { Ok(b) => b, Err(e) => panic!("the TriG parser rejects the serializer's output: {e:?}\n{}", String::from_utf8_lossy(&out[..out.len().min(3000)])) }
+    };
+    if back.len() != len { eprintln!("{len} quads written, {} read back", back.len()); return false; }
+    if n <= 300 && !sophia_isomorphism::isomorphic_datasets(&orig, &back).unwrap() { eprintln!("the dataset read back differs:\n{}", String::from_utf8_lossy(&out[..out.len().min(3000)])); return false; }
+    true
+}
+
+/// a dataset whose iterators end with an error item (and, optionally, whose graph_names fails)
+struct FailDs<D> { d: D, fail_names: bool }
+impl<D: Dataset> Dataset for FailDs<D> {
+    type Quad<'x> = D::Quad<'x> where Self: 'x;
+    type Error = MyErr;
+    fn quads(&self) -> impl Iterator<Item = Result<Self::Quad<'_>, Self::Error>> + '_ { probe(); self.d.quads().map(|r| r.map_err(|_| MyErr(0))).chain(std::iter::once_with(|| Err(MyErr(1)))) }
+    fn quads_matching<'s, 't, S, P, O, G>(&'s self, sm: S, pm: P, om: O, gm: G) -> impl Iterator<Item = Result<Self::Quad<'s>, Self::Error>> + 't
+    where 's: 't, S: sophia_api::term::matcher::TermMatcher + 't, P: sophia_api::term::matcher::TermMatcher + 't, O: sophia_api::term::matcher::TermMatcher + 't, G: sophia_api::term::matcher::GraphNameMatcher + 't {
+        probe(); self.d.quads_matching(sm, pm, om, gm).map(|r| r.map_err(|_| MyErr(0))).chain(std::iter::once_with(|| Err(MyErr(2))))
+    }
+    fn graph_names(&self) -> impl Iterator<Item = Result<sophia_api::dataset::DTerm<'_, Self>, Self::Error>> + '_ {
+        probe(); let fail = self.fail_names;
+        self.d.graph_names().map(|r| r.map_err(|_| MyErr(0))).chain(std::iter::once_with(|| Err(MyErr(3))).filter(move |_| fail))
+    }
+}
+
+/// outcome of one query: Ok((solutions, error items)) / Ok for ASK ((1|0), 0) / Err(the error value, as text)
+fn sparql_run<D: Dataset>(d: &D, q: &str) -> Result<(u64, u64), String> {
+    use sophia_sparql::{SparqlQuery, SparqlWrapper};
+    let w = SparqlWrapper(d);
+    let q = SparqlQuery::parse(q).map_err(|e| format!("parse: {e:?}"))?;
+    match w.query(&q) {
+        Err(e) => Err(format!("{e:?}")),
+        Ok(sophia_api::sparql::SparqlResult::Boolean(b)) => Ok((b as u64, 0)),
+        Ok(r) => { let (mut ok, mut er) = (0, 0); for row in r.into_bindings() { match row { Ok(_) => ok += 1, Err(_) => er += 1 } } Ok((ok, er)) }
+    }
+}
+fn jsonld_text<LF: sophia_jsonld::loader_factory::LoaderFactory>(quads: Vec<Q>, opt: sophia_jsonld::JsonLdOptions<LF>) -> String {
+    let mut sink = ProbeVec(vec![]);
+    sophia_jsonld::JsonLdSerializer::new_with_options(&mut sink, opt).serialize_quads(quads.into_iter().into_source()).unwrap();
+    String::from_utf8(sink.0).unwrap()
+}
+fn top_len(txt: &str) -> usize { match parse_json(txt) { Some(J::Arr(a)) => a.len(), _ => usize::MAX } }
+fn nq(t: [ST; 3]) -> Q { (t, None) }
+fn ck(cond: bool, what: &str) -> bool { if !cond { eprintln!("functional check failed: {what}"); } cond }
+
+fn run_wide(op: &str, n: usize) -> u64 {
+    use sophia_turtle::serializer::{nq::NqSerializer, nt::{NtConfig, NtSerializer}};
+    let yes = |b: bool| if b { n as u64 } else { 0 };
+    match op {
+        "nt-kinds" => {
+            let mut cfg = NtConfig::default(); cfg.set_ascii(false);
+            let mut sink = ProbeVec(vec![]);
+            { let mut ser = NtSerializer::new_with_config(&mut sink, cfg);
+              let _ = ser.config();
+              ser.serialize_triples((0..n).map(|i| kinds_triple(i, false)).into_source()).unwrap(); }
+            let out = sink.0;
+            let (mut c, mut same) = (0usize, true);
+            sophia_turtle::parser::nt::parse_bufread(&out[..]).for_each_triple(|t| { let e = kinds_triple(c, false); same &= Term::eq(&e[0], t.s()) && Term::eq(&e[1], t.p()) && Term::eq(&e[2], t.o()); c += 1; }).unwrap();
+            // the stringifier writes the same bytes
+            let same_str = n > 20_000 || { let mut s = NtSerializer::new_stringifier_with_config(NtConfig::default()); s.serialize_triples((0..n).map(|i| kinds_triple(i, false)).into_source()).unwrap(); s.as_utf8() == &out[..] };
+            yes(ck(c == n, "number of triples read back") && ck(same, "terms read back") && ck(same_str, "stringifier"))
+        }
+        "nq-kinds" => {
+            let quad = |i: usize| -> Q { (kinds_triple(i, true), match i % 5 { 0 => None, 1 | 2 => Some(iri(&format!("x:g{}", i % 50))), 3 => Some(bnode(&format!("g{}", i % 50))), _ => Some(var("g")) }) };
+            let mut sink = ProbeVec(vec![]);
+            NqSerializer::new(&mut sink).serialize_quads((0..n).map(quad).into_source()).unwrap();
+            let out = sink.0;
+            let (mut c, mut same) = (0usize, true);
+            sophia_turtle::parser::gnq::parse_bufread(&out[..]).for_each_quad(|q| { let e = quad(c); same &= Term::eq(&e.0[0], q.s()) && Term::eq(&e.0[1], q.p()) && Term::eq(&e.0[2], q.o()) && sophia_api::term::graph_name_eq(e.1.as_ref(), q.g()); c += 1; }).unwrap();
+            yes(ck(c == n, "number of quads read back") && ck(same, "terms read back"))
+        }
+        "nt-escape-lang" | "nt-escape-dt" => {
+            let l = if op == "nt-escape-lang" { lit_lang(&escapes(n), "en") } else { lit_dt(&escapes(n), "x:dt") };
+            let mut sink = ProbeSink(0);
+            NtSerializer::new(&mut sink).serialize_triples([[iri("x:s"), iri("x:p"), l]].into_iter().into_source()).unwrap();
+            sink.0
+        }
+        "nt-escape-quoted" => {
+            let t = [iri("x:s"), iri("x:p"), triple(iri("x:a"), iri("x:p"), lit_lang(&escapes(n), "en-GB"))];
+            let mut sink = ProbeSink(0);
+            sophia_turtle::serializer::nt::write_triple(&mut sink, t).unwrap();
+            sink.0
+        }
+        "trig-graphs" => {
+            let mut qs: Vec<Q> = vec![nq([iri("x:s"), iri("x:p"), iri("x:o")])];
+            for i in 0..n {
+                let g = if i % 2 == 0 { iri(&format!("x:g{i}")) } else { bnode(&format!("g{i}")) };
+                if i % 4 == 1 { qs.push(nq([g.clone(), iri("x:p"), lit(i)])); } // the name of a graph is also a subject of the default graph
+                if i % 3 == 0 { qs.push(([bnode("shared"), iri("x:p"), iri("x:o")], Some(g.clone()))); } // one blank node in many graphs
+                if i % 5 == 0 { qs.push(([s_i(i), iri("x:q"), bnode(&format!("in{i}"))], Some(g.clone()))); qs.push(([bnode(&format!("in{i}")), iri("x:p"), lit(i)], Some(g.clone()))); }
+                qs.push(([s_i(i), iri("x:p"), lit(i)], Some(g)));
+            }
+            yes(pretty_there_and_back(qs, None, true, false, n))
+        }
+        "ttl-wide" => {
+            if !pretty_there_and_back(vec![], None, false, false, n) || !pretty_there_and_back(vec![], None, true, false, n) { eprintln!("the empty graph / dataset"); return 0; }
+            let mut qs: Vec<Q> = vec![];
+            for i in 0..n {
+                qs.push(nq([iri("x:s"), iri(&format!("x:p{i}")), lit(i)]));
+                qs.push(nq([iri("x:s"), iri("x:many"), if i % 2 == 0 { lit(i) } else { s_i(i) }]));
+                qs.push(nq([iri("x:s"), iri(RDF_TYPE), iri(&format!("http://example.org/ns/C{i}"))]));
+            }
+            yes(pretty_there_and_back(qs, None, false, false, n))
+        }
+        "ttl-annot" => {
+            let mut qs: Vec<Q> = vec![];
+            for i in 0..n {
+                let o = if i % 2 == 0 { lit(i) } else { s_i(i + 1) };
+                qs.push(nq([s_i(i), iri("x:p"), o.clone()]));
+                qs.push(nq([triple(s_i(i), iri("x:p"), o), iri("x:q"), lit(i)])); // annotation of an asserted triple
+                match i % 3 {
+                    1 => qs.push(nq([triple(iri("x:a"), iri("x:p"), lit(i)), iri("x:q"), iri("x:o")])), // a quoted triple that is not asserted
+                    2 => { // a quoted triple as object, its blank node subject asserted / not asserted
+                        qs.push(nq([s_i(i), iri("x:r"), triple(bnode(&format!("k{i}")), iri("x:p"), iri("x:o"))]));
+                        if i % 2 == 0 { qs.push(nq([bnode(&format!("k{i}")), iri("x:p"), iri("x:o")])); }
+                    }
+                    _ => { qs.push(nq([s_i(i), iri("x:r"), triple(triple(iri("x:a"), iri("x:p"), bnode(&format!("m{i}"))), iri("x:q"), lit_lang("x", "en"))]));
+                        // asserted and quoted, but with rdf:first as predicate: not written as an annotation
+                        qs.push(nq([s_i(i), iri(RDF_FIRST), lit(i)])); qs.push(nq([triple(s_i(i), iri(RDF_FIRST), lit(i)), iri("x:q"), lit(i)])); }
+                }
+            }
+            yes(pretty_there_and_back(qs, None, false, false, n))
+        }
+        "ttl-kinds" => {
+            let (mut qs, mut ex): (Vec<Q>, Vec<Q>) = (vec![], vec![]);
+            let mut both = |t: [ST; 3], e: Option<[ST; 3]>| { ex.push(nq(e.unwrap_or_else(|| t.clone()))); qs.push(nq(t)); };
+            for i in 0..n {
+                let s = s_i(i);
+                match i % 16 {
+                    0 => both([s, iri("x:p"), lit_lang(&format!("chat \"{i}\"\n"), "fr-FR")], None),
+                    1 => both([s, iri("x:p"), lit_dt(&format!("{i}"), "http://example.org/ns/dt")], None),
+                    2 => both([s, iri("x:p"), lit_dt(&format!("{i}"), &xsd("integer"))], None),
+                    3 => both([s, iri("x:p"), lit_dt(&format!("{i}.5"), &xsd("decimal"))], None),
+                    4 => both([s, iri("x:p"), lit_dt(&format!("{i}e3"), &xsd("double"))], None),
+                    5 => both([s, iri("x:p"), lit_dt(if i % 32 == 5 { "true" } else { "false" }, &xsd("boolean"))], None),
+                    6 => both([s, iri("x:p"), lit_dt(&format!("abc{i}"), &xsd("integer"))], None), // not in the lexical space: quoted
+                    7 => both([s, iri("x:p"), iri(RDF_NIL)], None),
+                    8 => both([iri(&format!("http://example.org/ns/n{i}")), iri("http://example.org/ns/p"), iri(&format!("http://example.org/ns/a/b{i}"))], None), // prefixed name / not a PN_LOCAL
+                    9 => both([iri(&format!("rel{i}")), iri("x:p"), lit(i)], Some([iri(&format!("http://base/rel{i}")), iri("x:p"), lit(i)])), // relative IRI reference
+                    10 => both([bnode(&format!("anon{i}")), iri("x:p"), lit(i)], None), // a blank node that is nobody's object: []
+                    11 => { both([s.clone(), iri("x:p"), bnode(&format!("twice{i}"))], None); both([s, iri("x:q"), bnode(&format!("twice{i}"))], None); both([bnode(&format!("twice{i}")), iri("x:p"), lit(i)], None); } // labelled
+                    12 => both([s, iri("x:p"), var(&format!("v{i}"))], None),
+                    13 => both([s, bnode(&format!("pred{i}")), lit(i)], None), // generalized: blank node as predicate
+                    14 => { both([bnode(&format!("sp{i}")), iri("x:p"), lit(i)], None); both([s, bnode(&format!("sp{i}")), lit(i)], None); } // first a subject, then a predicate
+                    _ => both([s, iri("x:p"), triple(var("x"), iri(RDF_NIL), lit_dt("1", &xsd("integer")))], None),
+                }
+            }
+            yes(pretty_there_and_back(qs, Some(ex), false, true, n))
+        }
+        "ttl-cycle" => {
+            let mut qs: Vec<Q> = vec![];
+            for i in 0..n { qs.push(nq([bnode(&format!("c{i}")), iri("x:p"), bnode(&format!("c{}", (i + 1) % n))])); }
+            qs.push(nq([iri("x:s1"), iri("x:p"), bnode("top")])); qs.push(nq([iri("x:s2"), iri("x:p"), bnode("top")]));
+            for i in 0..n { qs.push(nq([if i == 0 { bnode("top") } else { bnode(&format!("h{i}")) }, iri("x:p"), bnode(&format!("h{}", i + 1))])); }
+            yes(pretty_there_and_back(qs, None, false, false, n))
+        }
+        "ttl-lists-bad" => {
+            let mut qs: Vec<Q> = vec![];
+            let cell = |qs: &mut Vec<Q>, id: &str, first: ST, rest: ST| { qs.push(nq([bnode(id), iri(RDF_FIRST), first])); qs.push(nq([bnode(id), iri(RDF_REST), rest])); };
+            for i in 0..n {
+                let (a, b) = (format!("a{i}"), format!("b{i}"));
+                qs.push(nq([s_i(i), iri("x:p"), bnode(&a)]));
+                cell(&mut qs, &b, lit(i), iri(RDF_NIL));
+                match i % 6 {
+                    5 => cell(&mut qs, &a, lit(i), iri("x:not-a-list")), // rdf:rest is neither rdf:nil nor a blank node
+                    0 => cell(&mut qs, &a, lit(i), bnode(&b)),
+                    1 => { cell(&mut qs, &a, lit(i), bnode(&b)); qs.push(nq([s_i(i), iri("x:q"), bnode(&a)])); } // the head has two parents
+                    2 => { cell(&mut qs, &a, lit(i), bnode(&b)); qs.push(nq([s_i(i), iri("x:q"), bnode(&format!("z{i}"))])); cell(&mut qs, &format!("z{i}"), lit(i), bnode(&b)); } // two cells share their tail
+                    3 => { cell(&mut qs, &a, lit(i), bnode(&b)); qs.push(nq([bnode(&b), iri("x:extra"), lit(i)])); } // the last cell has one more property
+                    _ => { cell(&mut qs, &a, lit(i), bnode(&b)); qs.push(nq([bnode(&a), iri(RDF_FIRST), lit(i + 1)])); } // two rdf:first
+                }
+            }
+            // one long list, damaged in the middle
+            qs.push(nq([iri("x:long"), iri("x:p"), bnode("l0")]));
+            for i in 0..n { cell(&mut qs, &format!("l{i}"), lit(i), if i + 1 == n { iri(RDF_NIL) } else { bnode(&format!("l{}", i + 1)) }); }
+            qs.push(nq([bnode(&format!("l{}", n / 2)), iri("x:extra"), lit(0)]));
+            yes(pretty_there_and_back(qs, None, false, false, n))
+        }
+        "sparql-from" => {
+            let mut d = FastDataset::new();
+            for i in 0..n { d.insert(s_i(i), iri("x:p"), lit(i), Some(if i % 7 == 3 { iri("x:other3") } else { iri("x:g") })).unwrap(); }
+            d.insert(iri("x:s"), iri("x:p"), iri("x:o"), None::<ST>).unwrap();
+            let d = ProbeDs(d);
+            let a = sparql_run(&d, "SELECT ?s FROM <x:g> { ?s <x:p> ?o }");
+            let b = sparql_run(&d, "SELECT ?s FROM <x:g> FROM <x:other3> { ?s <x:p> ?o }");
+            // (spargebra reports FROM with an empty FROM NAMED list, which the wrapper refuses: an error value)
+            let unsupported = |r: &Result<(u64, u64), String>| matches!(r, Err(e) if e.contains("Not implemented"));
+            yes(ck(a == Ok((n as u64 - ((n + 3) / 7) as u64, 0)) || unsupported(&a), &format!("FROM <x:g>: {a:?}")) && ck(b == Ok((n as u64, 0)) || unsupported(&b), &format!("two FROM: {b:?}")))
+        }
+        "sparql-unsupported" => {
+            let mut d = FastDataset::new();
+            for i in 0..n { d.insert(s_i(i), iri("x:p"), lit(i), if i % 2 == 0 { None } else { Some(iri(&format!("x:g{i}"))) }).unwrap(); }
+            let d = ProbeDs(d);
+            let qs = ["SELECT ?s FROM NAMED <x:g1> { ?s ?p ?o }", "SELECT ?s { ?s <x:p>+ ?o }", "SELECT ?s { { ?s <x:p> ?o FILTER(true) } { SELECT ?s { ?s <x:q> ?o2 } } }", "SELECT ?s { ?s <x:p> ?o OPTIONAL { ?s <x:q> ?o2 } }",
+                "SELECT ?s { ?s <x:p> ?o MINUS { ?s <x:q> ?o } }", "SELECT ?s { VALUES ?s { <x:s0> <x:s1> } ?s <x:p> ?o }", "SELECT ?s { VALUES ?s { <x:s0> <x:s1> } }", "SELECT REDUCED ?s { ?s <x:p> ?o }", "SELECT (COUNT(?s) AS ?c) { ?s <x:p> ?o }",
+                "SELECT ?p (COUNT(?s) AS ?c) { ?s ?p ?o } GROUP BY ?p", "SELECT ?s { SERVICE <x:svc> { ?s <x:p> ?o } }", "CONSTRUCT { ?s <x:q> ?o } WHERE { ?s <x:p> ?o }", "DESCRIBE <x:s0>"];
+            let mut all = true;
+            for q in qs { let r = sparql_run(&d, q); all &= ck(matches!(&r, Err(e) if e.contains("Not implemented")), &format!("{q}: expected a NotImplemented error value, got {r:?}")); }
+            yes(all)
+        }
+        "sparql-union" => {
+            let mut d = FastDataset::new();
+            for i in 0..n { d.insert(s_i(i), iri(&format!("x:p{}", i % 4)), lit(i), None::<ST>).unwrap(); }
+            let d = ProbeDs(d);
+            let r = sparql_run(&d, "SELECT ?s ?o ?o1 { { ?s <x:p0> ?o } UNION { ?s <x:p1> ?o1 } UNION { ?s <x:p2> ?o } UNION { ?s <x:p3> ?o } }");
+            yes(ck(r == Ok((n as u64, 0)), &format!("{r:?}")))
+        }
+        "sparql-extend" => {
+            use sophia_sparql::{SparqlQuery, SparqlWrapper};
+            let mut d = FastDataset::new();
+            for i in 0..n { d.insert(s_i(i), iri("x:p"), lit(i), None::<ST>).unwrap(); }
+            let d = ProbeDs(d);
+            let w = SparqlWrapper(&d);
+            let q = SparqlQuery::parse("SELECT ?s ?x ?y { ?s <x:p> ?o BIND(STR(?o) AS ?x) BIND(?nope AS ?y) }").unwrap();
+            let mut c = 0usize;
+            for row in w.query(&q).unwrap().into_bindings() { let row = row.unwrap(); if row[0].is_some() && row[1].is_some() && row[2].is_none() { c += 1; } }
+            // a variable bound twice is refused: by the parser, or with an error value
+            let r = sparql_run(&d, "SELECT ?s { ?s <x:p> ?o BIND(1 AS ?o) }");
+            yes(ck(c == n, &format!("{c} extended solutions")) && ck(r.is_err(), &format!("BIND on a bound variable: {r:?}")))
+        }
+        "sparql-distinct" => {
+            let mut d = FastDataset::new();
+            for i in 0..n { d.insert(s_i(i), iri("x:p"), lit(i % 3), None::<ST>).unwrap(); }
+            let d = ProbeDs(d);
+            let r = sparql_run(&d, "SELECT DISTINCT ?o { ?s <x:p> ?o }");
+            let r2 = sparql_run(&d, "SELECT DISTINCT ?s ?o { ?s <x:p> ?o }");
+            yes(ck(r == Ok((3.min(n) as u64, 0)), &format!("{r:?}")) && ck(r2 == Ok((n as u64, 0)), &format!("{r2:?}")))
+        }
+        "sparql-slice" => {
+            let mut d = FastDataset::new();
+            for i in 0..n { d.insert(s_i(i), iri("x:p"), lit(i), None::<ST>).unwrap(); }
+            let d = ProbeDs(d);
+            let a = sparql_run(&d, &format!("SELECT ?s {{ ?s <x:p> ?o }} OFFSET {} LIMIT 5", n - 1));
+            let b = sparql_run(&d, "SELECT ?s { ?s <x:p> ?o } LIMIT 7");
+            let c = sparql_run(&d, &format!("SELECT ?s {{ ?s <x:p> ?o }} OFFSET {}", n + 5));
+            yes(ck(a == Ok((1, 0)), &format!("{a:?}")) && ck(b == Ok((7, 0)), &format!("{b:?}")) && ck(c == Ok((0, 0)), &format!("{c:?}")))
+        }
+        "sparql-ask" => {
+            let mut d = FastDataset::new();
+            for i in 0..n { d.insert(s_i(i), iri("x:p"), lit(i), None::<ST>).unwrap(); }
+            let d = ProbeDs(d);
+            let a = sparql_run(&d, "ASK { ?s <x:p> ?o }");
+            let b = sparql_run(&d, "ASK { ?s <x:p> ?o FILTER(?o = <x:nope>) }");
+            let c = sparql_run(&d, "ASK { ?s <x:q> ?o }");
+            yes(ck(a == Ok((1, 0)), &format!("{a:?}")) && ck(b == Ok((0, 0)), &format!("{b:?}")) && ck(c == Ok((0, 0)), &format!("{c:?}")))
+        }
+        "sparql-graph-const" => {
+            let mut d = FastDataset::new();
+            for i in 0..n { d.insert(s_i(i), iri("x:p"), lit(i), Some(iri(&format!("x:g{i}")))).unwrap(); }
+            d.insert(iri("x:s"), iri("x:p"), iri("x:absent"), None::<ST>).unwrap();
+            let d = ProbeDs(d);
+            let a = sparql_run(&d, "SELECT ?s { GRAPH <x:g7> { ?s ?p ?o } }");
+            let b = sparql_run(&d, "SELECT ?s { GRAPH <x:absent> { } }");
+            let c = sparql_run(&d, &format!("SELECT ?s {{ GRAPH <x:g{}> {{ ?s ?p ?o FILTER(?s != <x:nope>) }} }}", n - 1));
+            yes(ck(a == Ok((1, 0)), &format!("{a:?}")) && ck(b == Ok((0, 0)), &format!("{b:?}")) && ck(c == Ok((1, 0)), &format!("{c:?}")))
+        }
+        "sparql-exists" => {
+            let mut d = FastDataset::new();
+            for i in 0..n {
+                if i % 2 == 0 { d.insert(s_i(i), iri("x:p"), lit(i), None::<ST>).unwrap(); }
+                if i % 4 == 0 { d.insert(s_i(i), iri("x:q"), lit(i), None::<ST>).unwrap(); }
+                d.insert(s_i(i), iri("x:p"), lit(i), Some(iri(&format!("x:g{}", i % 100)))).unwrap();
+            }
+            // (the list of graph names kept by the wrapper has one entry per quad of a named graph, and a bound GRAPH
+            // variable is looked up in it once per solution: only a few solutions take that path)
+            let rare = (0..20.min(n)).map(|k| 5 * k).filter(|k| *k < n.min(100)).collect::<Vec<_>>();
+            for k in &rare { d.insert(s_i(*k), iri("x:rare"), lit(*k), Some(iri(&format!("x:g{}", k % 100)))).unwrap(); }
+            let d = ProbeDs(d);
+            let a = sparql_run(&d, "SELECT ?s { ?s <x:p> ?o FILTER EXISTS { ?s <x:q> ?o2 } }");
+            let a2 = sparql_run(&d, "SELECT ?s { ?s <x:p> ?o FILTER NOT EXISTS { ?s <x:q> ?o2 } }");
+            let b = sparql_run(&d, "SELECT ?s { GRAPH ?g { ?s <x:rare> ?o } FILTER EXISTS { GRAPH ?g { ?s <x:p> ?o2 } } }");
+            let c = sparql_run(&d, "SELECT ?s { GRAPH ?g { ?s <x:rare> ?o } FILTER NOT EXISTS { GRAPH ?g { ?s <x:nope> ?o2 } } }");
+            yes(ck(a == Ok(((n as u64 + 3) / 4, 0)), &format!("{a:?}")) && ck(a2 == Ok(((n as u64 + 1) / 2 - (n as u64 + 3) / 4, 0)), &format!("{a2:?}")) && ck(b == Ok((rare.len() as u64, 0)), &format!("{b:?}")) && ck(c == Ok((rare.len() as u64, 0)), &format!("{c:?}")))
+        }
+        "sparql-errors" => {
+            let mut d = FastDataset::new();
+            for i in 0..n { d.insert(s_i(i), iri("x:p"), lit(i), Some(iri(&format!("x:g{i}")))).unwrap(); }
+            let names = FailDs { d, fail_names: true };
+            let c = sparql_run(&names, "SELECT ?s { ?s ?p ?o }");
+            let d = FailDs { d: names.d, fail_names: false };
+            let a = sparql_run(&d, "SELECT ?g ?s { GRAPH ?g { ?s ?p ?o FILTER(true) } }");
+            let b = sparql_run(&d, "SELECT ?s { GRAPH ?g { ?s ?p ?o } } ORDER BY ?s");
+            let e = sparql_run(&d, "SELECT DISTINCT ?s ?x { { GRAPH <x:g1> { ?s ?p ?o } } UNION { GRAPH <x:g2> { ?s ?p ?o } } BIND(1 AS ?x) } LIMIT 10");
+            yes(ck(a == Ok((0, n as u64)), &format!("GRAPH ?g over failing iterators: {a:?}")) && ck(matches!(&b, Err(e) if e.contains("Dataset error")), &format!("ORDER BY: {b:?}"))
+                && ck(matches!(&c, Err(e) if e.contains("Dataset error")), &format!("failing graph_names: {c:?}")) && ck(e == Ok((0, 2)), &format!("errors through union / extend / distinct / slice: {e:?}")))
+        }
+        "sparql-order-multi" => {
+            use sophia_sparql::{SparqlQuery, SparqlWrapper};
+            let mut d = FastDataset::new();
+            for i in 0..n { d.insert(s_i(i), iri(if i % 2 == 0 { "x:p" } else { "x:q" }), lit(i % 10), None::<ST>).unwrap(); }
+            let d = ProbeDs(d);
+            let w = SparqlWrapper(&d);
+            let q = SparqlQuery::parse("SELECT ?s ?o { { ?s <x:p> ?o } UNION { ?s <x:q> ?o2 } } ORDER BY ?nope ?o DESC(?s)").unwrap();
+            let rows: Vec<_> = w.query(&q).unwrap().into_bindings().into_iter().map(|r| r.unwrap()).collect();
+            // the solutions without ?o come first; then ?o ascending
+            let unbound_first = rows.iter().take(n / 2).all(|r| r[1].is_none()) && rows.iter().skip(n / 2).all(|r| r[1].is_some());
+            let key = |r: &Vec<Option<sophia_sparql::ResultTerm>>| r[1].as_ref().map(|t| t.lexical_form().unwrap().to_string());
+            let sorted = rows.windows(2).all(|w| key(&w[0]) <= key(&w[1]));
+            yes(ck(rows.len() == n, "number of solutions") && ck(unbound_first, "solutions without ?o first") && ck(sorted, "?o ascending"))
+        }
+        "sparql-bgp-join" => {
+            let mut d = FastDataset::new();
+            for i in 0..n { d.insert(s_i(i), iri("x:p"), lit(i), None::<ST>).unwrap(); d.insert(s_i(i), iri("x:q"), s_i(i), None::<ST>).unwrap(); d.insert(s_i(i), iri("x:r"), s_i(i + 1), None::<ST>).unwrap(); }
+            let d = ProbeDs(d);
+            let a = sparql_run(&d, "SELECT ?s ?o { <x:s0> <x:p> \"0\" . ?s <x:p> ?o . ?s <x:q> ?s }");
+            let b = sparql_run(&d, "SELECT ?x { ?x <x:r> ?x }");
+            let e = sparql_run(&d, "SELECT ?s { <x:s0> <x:p> \"1\" . ?s <x:p> ?o }");
+            yes(ck(a == Ok((n as u64, 0)), &format!("{a:?}")) && ck(b == Ok((0, 0)), &format!("{b:?}")) && ck(e == Ok((0, 0)), &format!("{e:?}")))
+        }
+        "jsonld-graphs" | "jsonld-graph-nodes" => {
+            let qs: Vec<Q> = (0..n).map(|i| ([s_i(i), iri("x:p"), lit(i)], Some(if op == "jsonld-graphs" { if i % 2 == 0 { iri(&format!("x:g{i}")) } else { bnode(&format!("g{i}")) } } else { iri(&format!("x:g{}", i / 100)) }))).collect();
+            let txt = jsonld_text(qs, sophia_jsonld::JsonLdOptions::new());
+            let graphs = if op == "jsonld-graphs" { n } else { (n + 99) / 100 };
+            yes(ck(top_len(&txt) == graphs, "number of top-level nodes") && ck(txt.matches("\"@graph\"").count() == graphs, "number of @graph entries") && ck(txt.matches("\"@value\"").count() == n, "number of values"))
+        }
+        "jsonld-types" => {
+            let mut qs: Vec<Q> = vec![];
+            for i in 0..n { qs.push(nq([s_i(i), iri(RDF_TYPE), iri(&format!("x:C{}", i % 5))])); qs.push(nq([iri(&format!("x:many{}", i / 100)), iri(RDF_TYPE), iri(&format!("x:T{i}"))])); qs.push(nq([s_i(i), iri(RDF_TYPE), bnode(&format!("t{}", i % 3))])); }
+            let a = jsonld_text(qs.clone(), sophia_jsonld::JsonLdOptions::new());
+            let b = jsonld_text(qs, sophia_jsonld::JsonLdOptions::new().with_use_rdf_type(true));
+            let many = (n + 99) / 100;
+            yes(ck(top_len(&a) == n + many && a.matches("\"@type\"").count() == n + many && a.matches("\"x:T").count() == n, "@type entries") && ck(top_len(&b) == n + many && b.matches("\"@type\"").count() == 0 && b.matches(&format!("\"{RDF_TYPE}\"")).count() == n + many, "rdf:type entries with use_rdf_type"))
+        }
+        "jsonld-kinds" => {
+            let mut qs: Vec<Q> = vec![];
+            for i in 0..n {
+                let o = match i % 10 {
+                    0 => lit_lang(&format!("chat {i}"), "fr"), 1 => lit_dt(&format!("{i}"), &xsd("integer")), 2 => lit_dt(&format!("{i}.5e0"), &xsd("double")), 3 => lit_dt("true", &xsd("boolean")),
+                    4 => lit_dt(&format!("t{i}"), "https://www.w3.org/ns/i18n#en_ltr"), 5 => lit_dt(&format!("t{i}"), "https://www.w3.org/ns/i18n#_rtl"), 6 => lit_dt(&format!("{i}"), "x:dt"),
+                    7 => iri(&format!("x:o{i}")), 8 => bnode(&format!("o{i}")), _ => lit_dt(&format!("{{\"a\": [{i}, null, {{\"b\": \"c\"}}]}}"), &format!("{RDF}JSON")),
+                };
+                qs.push(nq([s_i(i), iri("x:p"), o]));
+                if i % 10 == 2 { qs.push(nq([lit(i), iri("x:p"), s_i(i)])); qs.push(nq([s_i(i), bnode("pred"), lit(i)])); qs.push(nq([s_i(i), iri("x:p"), var("v")])); qs.push(nq([s_i(i), iri("x:p"), triple(s_i(i), iri("x:p"), lit(i))])); } // not expressible in JSON-LD: skipped
+                if i % 10 == 1 { qs.push(nq([s_i(i), iri("x:p"), lit_dt("not a number", &xsd("integer"))])); qs.push(nq([s_i(i), iri("x:p"), lit_dt("maybe", &xsd("boolean"))])); qs.push(nq([s_i(i), iri("x:p"), lit_dt("x", "https://www.w3.org/ns/i18n#EN_up")])); }
+            }
+            let opt = sophia_jsonld::JsonLdOptions::new().with_use_native_types(true).with_rdf_direction(sophia_jsonld::RdfDirection::I18nDatatype);
+            let txt = jsonld_text(qs, opt);
+            let tenth = |k: usize| (n + 9 - k) / 10;
+            yes(ck(top_len(&txt) == n, "number of nodes") && ck(txt.matches("\"@language\"").count() == tenth(0) + tenth(4), "@language entries") && ck(txt.matches("\"@direction\"").count() == tenth(4) + tenth(5), "@direction entries")
+                && ck(txt.matches("\"@json\"").count() == tenth(9), "@json entries") && ck(txt.matches("\"@id\"").count() == n + tenth(7) + tenth(8), "@id entries"))
+        }
+        "jsonld-compound" => {
+            let mut qs: Vec<Q> = vec![];
+            for i in 0..n {
+                let c = bnode(&format!("c{i}"));
+                qs.push(nq([s_i(i), iri("x:p"), c.clone()]));
+                qs.push(nq([c.clone(), iri(&format!("{RDF}value")), lit(i)])); qs.push(nq([c.clone(), iri(&format!("{RDF}direction")), lit_dt(if i % 2 == 0 { "ltr" } else { "rtl" }, &xsd("string"))]));
+                if i % 3 == 0 { qs.push(nq([c.clone(), iri(&format!("{RDF}language")), lit_dt("en", &xsd("string"))])); }
+                if i % 7 == 3 { qs.push(nq([s_i(i + n), iri("x:p"), c])); } // referenced twice: stays a node
+            }
+            let twice = (0..n).filter(|i| i % 7 == 3).count();
+            let txt = jsonld_text(qs, sophia_jsonld::JsonLdOptions::new().with_rdf_direction(sophia_jsonld::RdfDirection::CompoundLiteral));
+            yes(ck(top_len(&txt) == n + 2 * twice, &format!("number of nodes {} (expected {})", top_len(&txt), n + 2 * twice)) && ck(txt.matches("\"@direction\"").count() == n - twice, "@direction entries"))
+        }
+        "jsonld-list-cycle" => {
+            let mut qs: Vec<Q> = vec![];
+            for i in 0..n { let c = bnode(&format!("l{i}"));
+                qs.push(nq([c.clone(), iri(RDF_FIRST), if i + 1 == n { bnode("l0") } else { lit(i) }]));
+                qs.push(nq([c, iri(RDF_REST), if i + 1 == n { iri(RDF_NIL) } else { bnode(&format!("l{}", i + 1)) }])); }
+            let txt = jsonld_text(qs, sophia_jsonld::JsonLdOptions::new());
+            yes(ck(top_len(&txt) == n.max(1), &format!("{} nodes rendered", top_len(&txt))))
+        }
+        "jsonld-shared" => {
+            let mut qs: Vec<Q> = vec![];
+            for i in 0..n {
+                qs.push(nq([s_i(i), iri("x:p"), bnode("shared")]));
+                if i % 4 == 1 { let o = bnode(&format!("orphan{i}")); qs.push(nq([o.clone(), iri(RDF_FIRST), lit(i)])); qs.push(nq([o, iri(RDF_REST), iri(RDF_NIL)])); } // a list seed that is nobody's object
+                if i % 4 == 2 { let o = bnode(&format!("two{i}")); qs.push(nq([o.clone(), iri(RDF_FIRST), lit(i)])); qs.push(nq([o.clone(), iri(RDF_REST), iri(RDF_NIL)])); qs.push(nq([s_i(i), iri("x:l"), o.clone()])); qs.push(nq([s_i(i), iri("x:m"), o])); } // a list seed with two parents
+                if i % 4 != 0 { continue; }
+                let m = bnode(&format!("m{i}"));
+                let (g1, g2) = (Some(iri(&format!("x:g{}", i / 100))), Some(iri(&format!("x:h{}", i / 100))));
+                qs.push(([s_i(i), iri("x:l"), m.clone()], g1.clone())); qs.push(([m.clone(), iri(RDF_FIRST), lit(i)], g1.clone())); qs.push(([m.clone(), iri(RDF_REST), iri(RDF_NIL)], g1));
+                qs.push(([m, iri("x:also"), lit(i)], g2));
+            }
+            let txt = jsonld_text(qs, sophia_jsonld::JsonLdOptions::new());
+            yes(ck(parse_json(&txt).is_some(), "readable JSON") && ck(txt.matches("\"x:also\"").count() == (n + 3) / 4, "x:also entries") && ck(txt.matches(&format!("\"{RDF_FIRST}\"")).count() == (n + 3) / 4 + (n + 2) / 4 + (n + 1) / 4, "cells kept as nodes"))
+        }
+        "jsonld-list10" => {
+            let mut qs: Vec<Q> = list_triples(n).into_iter().map(nq).collect();
+            // item n/2 is replaced by a two-item list
+            let k = n / 2;
+            qs.retain(|q| !(Term::eq(&q.0[0], bnode(&format!("l{k}"))) && Term::eq(&q.0[1], iri(RDF_FIRST))));
+            qs.push(nq([bnode(&format!("l{k}")), iri(RDF_FIRST), bnode("i0")]));
+            qs.push(nq([bnode("i0"), iri(RDF_FIRST), lit(1)])); qs.push(nq([bnode("i0"), iri(RDF_REST), bnode("i1")]));
+            qs.push(nq([bnode("i1"), iri(RDF_FIRST), lit(2)])); qs.push(nq([bnode("i1"), iri(RDF_REST), iri(RDF_NIL)]));
+            let txt = jsonld_text(qs.clone(), sophia_jsonld::JsonLdOptions::new().with_processing_mode(sophia_jsonld::ProcessingMode::JsonLd1_0));
+            let txt11 = jsonld_text(qs, sophia_jsonld::JsonLdOptions::new());
+            yes(ck(parse_json(&txt).is_some() && txt.matches("\"@value\"").count() == n + 1, "values in 1.0 mode") && ck(top_len(&txt11) == 1 && txt11.matches("\"@list\"").count() == 2, "lists in 1.1 mode"))
+        }
+        "jsonld-json-literal" => {
+            let arr = format!("[{}]", (0..n).map(|i| i.to_string()).collect::<Vec<_>>().join(","));
+            let txt = jsonld_text(vec![nq([iri("x:s"), iri("x:p"), lit_dt(&arr, &format!("{RDF}JSON"))])], sophia_jsonld::JsonLdOptions::new());
+            let items = match parse_json(&txt) { Some(J::Arr(a)) => match a.first().and_then(|x| x.get("x:p")) { Some(J::Arr(v)) => match v.first().and_then(|x| x.get("@value")) { Some(J::Arr(items)) => items.len(), _ => usize::MAX }, _ => usize::MAX }, _ => usize::MAX };
+            yes(ck(items == n, &format!("{items} array items")) && ck(txt.contains("\"@json\""), "@json"))
+        }
+        "term-ord" => term_ord(n),
+        "term-native" => term_native(n),
+        "term-nested" => term_nested(n),
+        _ => unreachable!(),
+    }
+}
+
+fn kind_rank<T: Term>(t: &T) -> (u8, String, String, String) {
+    use sophia_api::term::TermKind::*;
+    match t.kind() {
+        BlankNode => (0, t.bnode_id().unwrap().to_string(), String::new(), String::new()),
+        Iri => (1, t.iri().unwrap().to_string(), String::new(), String::new()),
+        Literal => match t.language_tag() { Some(tag) => (2, format!("{RDF}langString"), tag.to_string(), t.lexical_form().unwrap().to_string()), None => (2, t.datatype().unwrap().to_string(), String::new(), t.lexical_form().unwrap().to_string()) },
+        Triple => (3, String::new(), String::new(), String::new()),
+        Variable => (4, t.variable().unwrap().to_string(), String::new(), String::new()),
+    }
+}
+/// reference order of two terms (documentation of Term::cmp), written independently
+fn ref_cmp(a: &ST, b: &ST) -> std::cmp::Ordering {
+    let (ka, kb) = (kind_rank(a), kind_rank(b));
+    if ka.0 == 3 && kb.0 == 3 { let (x, y) = (a.triple().unwrap(), b.triple().unwrap()); return ref_cmp(x[0], y[0]).then_with(|| ref_cmp(x[1], y[1])).then_with(|| ref_cmp(x[2], y[2])); }
+    // two language-tagged strings: tag, then lexical form; otherwise datatype, then lexical form
+    ka.cmp(&kb)
+}
+fn forwarded<T: Term>(t: T) -> (bool, bool, bool, bool, bool) { (t.is_iri(), t.is_blank_node(), t.is_literal(), t.is_variable(), t.is_triple()) }
+fn term_ord(n: usize) -> u64 {
+    use std::hash::{Hash, Hasher};
+    let mut ts: Vec<ST> = vec![];
+    for i in 0..n { let [s, _, o] = kinds_triple(i / 2, true); ts.push(if i % 2 == 0 { s } else { o }); if i % 9 == 0 { ts.push(var(&format!("v{}", i % 100))); } if i % 11 == 0 { ts.push(lit_lang("same", ["en", "fr", "de"][i % 3])); } }
+    let total = ts.len();
+    // every term twice: duplicates to remove
+    let mut all: Vec<ST> = ts.iter().cloned().chain(ts.iter().rev().cloned()).collect();
+    all.sort_by(|a, b| Term::cmp(a, b.borrow_term()));
+    let sorted = all.windows(2).all(|w| ref_cmp(&w[0], &w[1]) != std::cmp::Ordering::Greater);
+    // through &T as well
+    let fw = all.iter().all(|t| forwarded(t) == forwarded(t.clone()) && forwarded(t) == (t.is_iri(), t.is_blank_node(), t.is_literal(), t.is_variable(), t.is_triple()));
+    all.dedup_by(|a, b| Term::eq(a, b.borrow_term()));
+    let distinct_ref: std::collections::BTreeSet<String> = ts.iter().map(|t| format!("{t:?}")).collect();
+    let hashes: std::collections::HashSet<u64> = all.iter().map(|t| { let mut h = std::collections::hash_map::DefaultHasher::new(); Term::hash(t, &mut h); h.finish() }).collect();
+    let hashes2: std::collections::HashSet<u64> = ts.iter().map(|t| { let mut h = std::collections::hash_map::DefaultHasher::new(); Term::hash(&t, &mut h); 0u8.hash(&mut h); h.finish() }).collect();
+    let _ = total;
+    if ck(sorted, "sorted by Term::cmp agrees with the reference order") && ck(fw, "&T forwards the kind tests") && ck(all.len() == distinct_ref.len(), &format!("{} distinct terms by Term::eq, {} by text", all.len(), distinct_ref.len())) && ck(hashes.len() == all.len() && hashes2.len() == all.len(), "one hash per distinct term") { n as u64 } else { 0 }
+}
+fn term_native(n: usize) -> u64 {
+    use sophia_api::term::{BnodeId, IriRef, VarName};
+    let mut ok = true; let mut count = 0usize;
+    let mut vars: Vec<VarName<String>> = vec![];
+    for i in 0..n {
+        let name = format!("x:n{i}");
+        let i1 = IriRef::new_unchecked(name.as_str());
+        let b1 = BnodeId::new_unchecked(format!("b{i}"));
+        let v1 = VarName::new_unchecked(format!("v{}", (i * 7919) % n));
+        let num = i as i32;
+        let txt: &str = &name;
+        ok &= !i1.is_literal() && !i1.is_variable() && i1.variable().is_none() && i1.language_tag().is_none() && i1.is_iri();
+        ok &= !b1.is_literal() && !b1.is_variable() && b1.variable().is_none() && b1.is_blank_node();
+        ok &= !v1.is_literal() && v1.is_variable() && v1.variable().is_some();
+        ok &= v1.iri().is_none() && v1.bnode_id().is_none() && v1.lexical_form().is_none() && v1.datatype().is_none() && v1.language_tag().is_none() && v1.triple().is_none() && v1.clone().to_triple().is_none() && v1.is_atom();
+        ok &= v1.constituents().count() == 1 && v1.atoms().count() == 1 && b1.triple().is_none() && i1.triple().is_none() && num.triple().is_none();
+        ok &= num.is_literal() && !num.is_variable() && num.variable().is_none();
+        ok &= txt.is_literal() && !txt.is_variable();
+        ok &= Term::eq(&v1, var(&format!("v{}", (i * 7919) % n))) && !Term::eq(&v1, var("other")) && !Term::eq(&v1, i1) && Term::eq(&i1, iri(&name)) && Term::eq(&num, lit_dt(&format!("{i}"), &xsd("integer")));
+        ok &= Term::cmp(&b1, i1) == std::cmp::Ordering::Less && Term::cmp(&i1, num) == std::cmp::Ordering::Less && Term::cmp(&num, &v1) == std::cmp::Ordering::Less && Term::cmp(&v1, VarName::new_unchecked("zzzzzzzz")) == std::cmp::Ordering::Less;
+        vars.push(v1); count += 1;
+    }
+    vars.sort_by(|a, b| Term::cmp(a, b));
+    ok &= vars.windows(2).all(|w| w[0].as_str() <= w[1].as_str());
+    if ck(ok, "provided methods of the native term types") && count == n { n as u64 } else { 0 }
+}
+fn nested(i: usize, depth: usize) -> ST { let mut t = triple(bnode(&format!("b{i}")), iri("x:p"), lit_lang("x", "en")); for k in 1..depth { t = if k % 2 == 0 { triple(t, iri("x:p"), var("v")) } else { triple(s_i(i), iri("x:q"), t) }; } t }
+fn term_nested(n: usize) -> u64 {
+    use std::hash::Hasher;
+    const D: usize = 4;
+    let mut ok = true;
+    let mut prev: Option<ST> = None;
+    for i in 0..n {
+        let t = nested(i, D);
+        let (c, a) = (t.constituents().count(), t.atoms().count());
+        let (c2, a2) = (t.clone().to_constituents().count(), t.clone().to_atoms().count());
+        ok &= c == 3 * D + 1 && a == 2 * D + 1 && c2 == c && a2 == a && !t.is_atom() && t.atoms().all(|x| x.is_atom());
+        ok &= Term::eq(&t, nested(i, D)) && !Term::eq(&t, nested(i + 1, D));
+        if let Some(p) = &prev { ok &= Term::cmp(p, &t) != std::cmp::Ordering::Equal && Term::cmp(p, &t) == Term::cmp(&t, p).reverse(); }
+        let (mut h1, mut h2) = (std::collections::hash_map::DefaultHasher::new(), std::collections::hash_map::DefaultHasher::new());
+        Term::hash(&t, &mut h1); Term::hash(&nested(i, D), &mut h2); ok &= h1.finish() == h2.finish();
+        prev = Some(t);
+    }
+    if ck(ok, "nested quoted triples") { n as u64 } else { 0 }
+}
+
+// ---------------------------------------------------------------------------------------------
+// every loop over data driven with a large count of the thing it iterates over: consecutive
+// statement-less steps of every kind in every parser (comments, empty lines, prefix / base
+// directives, empty XML elements, JSON-LD nodes without properties), statements per subject /
+// objects per predicate / statements per graph / graphs per document on the parsing and on the
+// serialising side (streaming and pretty), escapes in every kind of token, prefixes per prefix
+// map, values per JSON-LD property, ORDER BY keys, consecutive duplicates skipped by the
+// enumerations of the in-memory stores, bulk mutations, items skipped by the source adapters.
+// ---------------------------------------------------------------------------------------------
+const LOOP_OPS: &[(&str, &str)] = &[
+    ("parse-void-nt", "N-Triples parser on n comment lines, n empty lines, one triple, n comment lines (for_each_triple, and a for_some_triple loop)"),
+    ("parse-void-nq", "N-Quads parser on n comment lines, n empty lines, one quad, n comment lines"),
+    ("parse-void-gnq", "generalized N-Quads parser on n comment lines, n empty lines, one quad, n comment lines"),
+    ("parse-void-ttl", "Turtle parser on n comments, n empty lines, n @prefix, n PREFIX, n @base, n BASE directives, one triple, n comments"),
+    ("parse-void-trig", "TriG parser on n comments, n empty lines, n @prefix, n PREFIX, n @base, n BASE directives, n empty GRAPH blocks, one quad, n comments"),
+    ("parse-void-gtrig", "generalized TriG parser on n comments, n empty lines, n @prefix, n PREFIX, n @base, n BASE directives, n empty GRAPH blocks, one quad, n comments"),
+    ("parse-void-xml", "RDF/XML parser on n comments, n processing instructions, n empty rdf:Description elements, n white-space runs, one property"),
+    ("parse-void-jsonld", "JSON-LD parser on n nodes without any property, then one node with a property"),
+    ("parse-subject-ttl", "Turtle parser on one subject with n predicates (;), one predicate with n objects (,), n blank node labels and n anonymous nodes"),
+    ("parse-subject-trig", "TriG parser on one GRAPH block of n statements and n GRAPH blocks of one statement, with and without the GRAPH keyword"),
+    ("parse-subject-xml", "RDF/XML parser on one rdf:Description with n property elements, n rdf:Description elements, n rdf:li, n typed nodes"),
+    ("parse-subject-jsonld", "JSON-LD parser on one node with n values of one property, and a @graph of n nodes"),
+    ("parse-tokens-nt", "N-Triples / N-Quads / generalized N-Quads parsers on a literal with n escapes of every kind, an IRI with n \\u escapes, a comment of n characters, a blank node label of n characters"),
+    ("parse-tokens-ttl", "Turtle / TriG / generalized TriG parsers on literals (short and long quotes) with n escapes and n line feeds, an IRI with n \\u escapes, a prefixed name with n escaped characters, an integer of n digits, a comment of n characters"),
+    ("parse-tokens-xml", "RDF/XML parser on a text and an attribute with n entity references, a CDATA section of 3n characters, min(n, 3000) namespace declarations"),
+    ("ttl-stream-subject", "streaming TurtleSerializer on one subject with n predicates and one predicate with n objects, read back"),
+    ("trig-stream-graphs", "streaming TrigSerializer on n named graphs of one statement and one named graph of n statements, read back"),
+    ("ttl-prefixes", "TurtleSerializer, streaming and pretty, with a prefix map of n prefixes (IRIs matching the first, the last and no prefix), read back"),
+    ("xml-ser", "RdfXmlSerializer on n subjects with one triple each and one subject with n triples, read back by the RDF/XML parser"),
+    ("ttl-pretty-subject", "pretty TurtleSerializer on ONE subject with 3n triples (n predicates, n objects of one predicate, n types) and on one subject with 3n triples in one named graph (TriG)"),
+    ("trig-pretty-big", "pretty TrigSerializer on n named graphs (IRI names) of one statement each plus n statements in the default graph"),
+    ("jsonld-values", "JsonLdSerializer on one subject with n values of one property and n values of rdf:type"),
+    ("sparql-order-keys", "SELECT ?s { ?s <x:p> ?o } ORDER BY with 10 keys, the first 9 of them tied, over n solutions"),
+    ("inmem-enumerate", "subjects / predicates / objects / graph_names / iris / blank_nodes / literals / quoted_triples / variables of the four in-memory stores over n quads with 3 predicates and 7 graph names"),
+    ("inmem-bulk", "from_quad_source / collect / insert_all / remove_matching / retain_matching / remove_all / contains on the in-memory stores and on Vec / HashSet / BTreeSet datasets, n quads"),
+    ("source-adapters", "filter_triples / filter_map_triples / map_triples / to_quads / filter_quads over n items (all but one rejected), on an iterator source and on a parser source"),
+];
+fn loop_sizes(op: &str, big: usize) -> Option<Vec<usize>> {
+    let thorough = big >= 1_000_000;
+    Some(match op {
+        // linear, but slow in unoptimised builds
+        "ttl-pretty-subject" => if thorough { vec![10_000, 100_000] } else { vec![3_000, 12_000] },
+        // quadratic: push_if_new scans the values already there
+        "jsonld-values" => if thorough { vec![10_000, 40_000] } else { vec![5_000, 20_000] },
+        // the JSON-LD processor is slow
+        "parse-void-jsonld" | "parse-subject-jsonld" => if thorough { vec![10_000, 100_000] } else { vec![5_000, 30_000] },
+        _ => return None,
+    })
+}
+
+fn count_triples<S: TripleSource>(mut src: S) -> Result<usize, String> { let mut c = 0; src.for_each_triple(|_| c += 1).map_err(|e| format!("{e:?}"))?; Ok(c) }
+fn count_quads<S: QuadSource>(mut src: S) -> Result<usize, String> { let mut c = 0; src.for_each_quad(|_| c += 1).map_err(|e| format!("{e:?}"))?; Ok(c) }
+/// number of statements of `doc` according to the parser of `fmt`, consumed with for_each
+fn parse_count(fmt: &str, doc: &str) -> Result<usize, String> {
+    use sophia_api::parser::{QuadParser, TripleParser};
+    let b = doc.as_bytes();
+    match fmt {
+        "nt" => count_triples(sophia_turtle::parser::nt::parse_bufread(b)),
+        "nq" => count_quads(sophia_turtle::parser::nq::parse_bufread(b)),
+        "gnq" => count_quads(sophia_turtle::parser::gnq::parse_bufread(b)),
+        "ttl" => count_triples(sophia_turtle::parser::turtle::parse_bufread(b)),
+        "trig" => count_quads(sophia_turtle::parser::trig::parse_bufread(b)),
+        "gtrig" => count_quads(sophia_turtle::parser::gtrig::parse_bufread(b)),
+        "xml" => count_triples(sophia_xml::parser::parse_bufread(b)),
+        "jsonld" => count_quads(sophia_jsonld::JsonLdParser::new().parse_str(doc)),
+        _ => unreachable!(),
+    }
+}
+/// the same through a caller's loop over for_some_*
+fn parse_count_some(fmt: &str, doc: &str) -> Result<usize, String> {
+    let b = doc.as_bytes();
+    fn t<S: TripleSource>(mut s: S) -> Result<usize, String> { let mut c = 0; while s.for_some_triple(|_| c += 1).map_err(|e| format!("{e:?}"))? {} Ok(c) }
+    fn q<S: QuadSource>(mut s: S) -> Result<usize, String> { let mut c = 0; while s.for_some_quad(|_| c += 1).map_err(|e| format!("{e:?}"))? {} Ok(c) }
+    match fmt {
+        "nt" => t(sophia_turtle::parser::nt::parse_bufread(b)), "nq" => q(sophia_turtle::parser::nq::parse_bufread(b)), "gnq" => q(sophia_turtle::parser::gnq::parse_bufread(b)),
+        "ttl" => t(sophia_turtle::parser::turtle::parse_bufread(b)), "trig" => q(sophia_turtle::parser::trig::parse_bufread(b)), "gtrig" => q(sophia_turtle::parser::gtrig::parse_bufread(b)),
+        "xml" => t(sophia_xml::parser::parse_bufread(b)),
+        _ => parse_count(fmt, doc),
+    }
+}
+fn expect_count(what: &str, got: Result<usize, String>, want: usize) -> bool { ck(got == Ok(want), &format!("{what}: {:?} statements, expected {want}", got.as_ref().map_err(|e| e.chars().take(300).collect::<String>()))) }
+const XML_HEAD: &str = "<?xml version=\"1.0\"?>\n<rdf:RDF xmlns:rdf=\"http://www.w3.org/1999/02/22-rdf-syntax-ns#\" xmlns:e=\"http://example.org/ns/\">\n";
+
+fn run_loop(op: &str, n: usize) -> u64 {
+    use std::fmt::Write as _;
+    let yes = |b: bool| if b { n as u64 } else { 0 };
+    match op {
+        "parse-void-nt" | "parse-void-nq" | "parse-void-gnq" | "parse-void-ttl" | "parse-void-trig" | "parse-void-gtrig" => {
+            let fmt = &op["parse-void-".len()..];
+            let turtle = matches!(fmt, "ttl" | "trig" | "gtrig");
+            let mut d = String::new();
+            for i in 0..n { writeln!(d, "# comment {i}").unwrap(); }
+            for _ in 0..n { d.push('\n'); }
+            for i in 0..n { if i % 3 == 0 { d.push_str("   \t\n"); } else { d.push_str("#\n"); } }
+            if turtle {
+                for i in 0..n { writeln!(d, "@prefix p{i}: <http://example.org/{i}/> .").unwrap(); }
+                for i in 0..n { writeln!(d, "PREFIX q{i}: <http://example.org/{i}#>").unwrap(); }
+                for i in 0..n { writeln!(d, "@base <http://example.org/base{i}/> .").unwrap(); }
+                for i in 0..n { writeln!(d, "BASE <http://example.org/Base{i}/>").unwrap(); }
+                if fmt != "ttl" { for i in 0..n { if i % 2 == 0 { writeln!(d, "GRAPH <http://example.org/g{i}> {{ }}").unwrap(); } else { writeln!(d, "<http://example.org/g{i}> {{ }} {{ }}").unwrap(); } } }
+                writeln!(d, "p0:s q{}:p <o> .", n - 1).unwrap();
+            } else { d.push_str("<x:s> <x:p> <x:o> .\n"); }
+            for i in 0..n { writeln!(d, "# trailing comment {i}").unwrap(); }
+            yes(expect_count("for_each", parse_count(fmt, &d), 1) && expect_count("for_some loop", parse_count_some(fmt, &d), 1))
+        }
+        "parse-void-xml" => {
+            let mut d = String::from(XML_HEAD);
+            for i in 0..n { writeln!(d, "<!-- comment {i} -->").unwrap(); }
+            for i in 0..n { writeln!(d, "<?pi number {i}?>").unwrap(); }
+            for i in 0..n { writeln!(d, "<rdf:Description rdf:about=\"http://example.org/s{i}\"/>").unwrap(); }
+            for i in 0..n { if i % 2 == 0 { writeln!(d, "<rdf:Description rdf:about=\"http://example.org/t{i}\"></rdf:Description>").unwrap(); } else { d.push_str(" \n\t\n"); } }
+            d.push_str("<rdf:Description rdf:about=\"http://example.org/s\"><e:p>o</e:p></rdf:Description>\n");
+            for i in 0..n { writeln!(d, "<!-- trailing comment {i} -->").unwrap(); }
+            d.push_str("</rdf:RDF>\n");
+            yes(expect_count("for_each", parse_count("xml", &d), 1) && expect_count("for_some loop", parse_count_some("xml", &d), 1))
+        }
+        "parse-void-jsonld" => {
+            let mut d = String::from("[\n");
+            for i in 0..n { writeln!(d, "{{\"@id\": \"http://example.org/s{i}\"}},").unwrap(); }
+            for i in 0..n { if i % 2 == 0 { writeln!(d, "{{\"@id\": \"http://example.org/t{i}\", \"http://example.org/p\": []}},").unwrap(); } else { writeln!(d, "{{\"@id\": \"http://example.org/t{i}\", \"ignored term\": {i}}},").unwrap(); } }
+            d.push_str("{\"@id\": \"http://example.org/s\", \"http://example.org/p\": \"o\"}\n]\n");
+            yes(expect_count("for_each", parse_count("jsonld", &d), 1))
+        }
+        "parse-subject-ttl" => {
+            let mut d = String::from("@prefix e: <http://example.org/ns/> .\ne:s ");
+            for i in 0..n { write!(d, "e:p{i} {i} ;\n  ").unwrap(); }
+            d.push_str("e:many ");
+            for i in 0..n { write!(d, "{i} ,\n  ").unwrap(); }
+            d.push_str("\"last\" ;;; .\n");
+            for i in 0..n { writeln!(d, "_:b{i} e:p [] .").unwrap(); }
+            for i in 0..n { writeln!(d, "[] e:p _:b{i} .").unwrap(); }
+            yes(expect_count("Turtle", parse_count("ttl", &d), 4 * n + 1) && expect_count("TriG", parse_count("trig", &d), 4 * n + 1) && expect_count("generalized TriG", parse_count_some("gtrig", &d), 4 * n + 1))
+        }
+        "parse-subject-trig" => {
+            let mut d = String::from("@prefix e: <http://example.org/ns/> .\nGRAPH e:g {\n");
+            for i in 0..n { writeln!(d, "  e:s{i} e:p {i} .").unwrap(); }
+            d.push_str("}\ne:h {\n");
+            for i in 0..n { writeln!(d, "  e:s e:p{i} {i} .").unwrap(); }
+            d.push_str("}\n");
+            for i in 0..n { if i % 2 == 0 { writeln!(d, "GRAPH e:g{i} {{ e:s e:p {i} }}").unwrap(); } else { writeln!(d, "_:g{i} {{ e:s e:p {i} . }}").unwrap(); } }
+            for i in 0..n { writeln!(d, "{{ e:s{i} e:q {i} }}").unwrap(); }
+            yes(expect_count("TriG", parse_count("trig", &d), 4 * n) && expect_count("generalized TriG", parse_count("gtrig", &d), 4 * n))
+        }
+        "parse-subject-xml" => {
+            let mut d = String::from(XML_HEAD);
+            d.push_str("<rdf:Description rdf:about=\"http://example.org/s\">\n");
+            for i in 0..n { match i % 4 { 0 => writeln!(d, "<e:p{i}>{i}</e:p{i}>"), 1 => writeln!(d, "<e:p rdf:resource=\"http://example.org/o{i}\"/>"), 2 => writeln!(d, "<e:p xml:lang=\"en\">v{i}</e:p>"), _ => writeln!(d, "<e:p rdf:datatype=\"http://www.w3.org/2001/XMLSchema#integer\">{i}</e:p>") }.unwrap(); }
+            d.push_str("</rdf:Description>\n<rdf:Seq rdf:about=\"http://example.org/seq\">\n");
+            for i in 0..n { writeln!(d, "<rdf:li>{i}</rdf:li>").unwrap(); }
+            d.push_str("</rdf:Seq>\n");
+            for i in 0..n { if i % 2 == 0 { writeln!(d, "<rdf:Description rdf:about=\"http://example.org/s{i}\" e:q=\"{i}\"/>").unwrap(); } else { writeln!(d, "<e:C rdf:nodeID=\"b{i}\"/>").unwrap(); } }
+            d.push_str("</rdf:RDF>\n");
+            yes(expect_count("RDF/XML", parse_count("xml", &d), 3 * n + 1))
+        }
+        "parse-subject-jsonld" => {
+            let mut d = String::from("{\"@id\": \"http://example.org/s\", \"http://example.org/p\": [");
+            for i in 0..n { write!(d, "{}{i}", if i == 0 { "" } else { ", " }).unwrap(); }
+            d.push_str("],\n\"@graph\": [\n");
+            for i in 0..n { writeln!(d, "{}{{\"@id\": \"http://example.org/s{i}\", \"http://example.org/q\": {{\"@id\": \"_:b{i}\"}}}}", if i == 0 { "" } else { "," }).unwrap(); }
+            d.push_str("]}\n");
+            yes(expect_count("JSON-LD", parse_count("jsonld", &d), 2 * n))
+        }
+        "parse-tokens-nt" => {
+            let esc: String = (0..n).map(|i| ["\\\"", "\\\\", "\\n", "\\r", "\\t", "\\u00E9", "\\U0001F600", "a"][i % 8]).collect();
+            let iri_esc: String = (0..n).map(|i| ["\\u00E9", "a", "\\U0001F600"][i % 3]).collect();
+            let label: String = (0..n).map(|i| char::from(b'a' + (i % 26) as u8)).collect();
+            let mut d = String::new();
+            writeln!(d, "#{}", "c".repeat(n)).unwrap();
+            writeln!(d, "<x:s> <x:p> \"{esc}\" .").unwrap();
+            writeln!(d, "<x:s> <x:p> \"{esc}\"@en .").unwrap();
+            writeln!(d, "<x:s> <x:p> \"{esc}\"^^<x:dt> .").unwrap();
+            writeln!(d, "<x:{iri_esc}> <x:p> <x:o> .").unwrap();
+            writeln!(d, "_:{label} <x:p> _:{label}2 .   #{}", "c".repeat(n)).unwrap();
+            writeln!(d, "<< <x:s> <x:p> \"{esc}\" >> <x:q> <x:o> .").unwrap();
+            yes(expect_count("N-Triples", parse_count("nt", &d), 6) && expect_count("N-Quads", parse_count("nq", &d), 6) && expect_count("generalized N-Quads", parse_count("gnq", &d), 6))
+        }
+        "parse-tokens-ttl" => {
+            let esc: String = (0..n).map(|i| ["\\\"", "\\\\", "\\n", "\\r", "\\t", "\\u00E9", "\\U0001F600", "a", "\\'", "\\b", "\\f"][i % 11]).collect();
+            let long: String = (0..n).map(|i| ["\n", "\"", "''", "\\\"", "é", "a", "\r\n", "\"\""][i % 8]).collect::<String>() + "x";
+            let iri_esc: String = (0..n).map(|i| ["\\u00E9", "a", "\\U0001F600"][i % 3]).collect();
+            let local: String = (0..n).map(|i| ["\\~", "a", "\\.", "%41", ":", "\\-", "é", "."][i % 8]).collect::<String>() + "z";
+            let mut d = String::from("@prefix e: <http://example.org/ns/> .\n");
+            writeln!(d, "#{}", "c".repeat(n)).unwrap();
+            writeln!(d, "e:s e:p \"{esc}\" , '{esc}' , \"{esc}\"@en , '{esc}'^^e:dt .").unwrap();
+            writeln!(d, "e:s e:p \"\"\"{long}\"\"\" , '''{}'''@fr .", long.replace("''", "'")).unwrap();
+            writeln!(d, "<http://example.org/{iri_esc}> e:p e:a{local} .").unwrap();
+            writeln!(d, "e:s e:p {} , {}.{} , {}.{}e{} , -{} .", "7".repeat(n), "1".repeat(n), "2".repeat(n), "3".repeat(n), "4".repeat(n), "5".repeat(n.min(3)), "8".repeat(n)).unwrap();
+            writeln!(d, "e:s{}e:p{}e:o{}.{}", " \t".repeat(n), "\n".repeat(n), " ".repeat(n), "\n".repeat(n)).unwrap();
+            yes(expect_count("Turtle", parse_count("ttl", &d), 12) && expect_count("TriG", parse_count("trig", &d), 12) && expect_count("generalized TriG", parse_count("gtrig", &d), 12))
+        }
+        "parse-tokens-xml" => {
+            let ents: String = (0..n).map(|i| ["&amp;", "&lt;", "&#233;", "&#x1F600;", "a", "&quot;", "&gt;", "&apos;"][i % 8]).collect();
+            let mut d = String::from("<?xml version=\"1.0\"?>\n<rdf:RDF xmlns:rdf=\"http://www.w3.org/1999/02/22-rdf-syntax-ns#\" xmlns:e=\"http://example.org/ns/\"");
+            let nns = n.min(3000); // (the XML reader takes quadratic time in the number of namespace declarations)
+            for i in 0..nns { write!(d, "\n xmlns:n{i}=\"http://example.org/ns{i}/\"").unwrap(); }
+            d.push_str(">\n");
+            writeln!(d, "<rdf:Description rdf:about=\"http://example.org/s\" e:a=\"{ents}\"><e:p>{ents}</e:p><n{}:q><![CDATA[{}]]></n{}:q></rdf:Description>", nns - 1, "<&>".repeat(n), nns - 1).unwrap();
+            d.push_str("</rdf:RDF>\n");
+            yes(expect_count("RDF/XML", parse_count("xml", &d), 3))
+        }
+        "ttl-stream-subject" | "ttl-pretty-subject" => {
+            let pretty = op == "ttl-pretty-subject";
+            let mut ts: Vec<[ST; 3]> = vec![];
+            for i in 0..n { ts.push([iri("x:s"), iri(&format!("x:p{i}")), lit(i)]); }
+            for i in 0..n { ts.push([iri("x:s"), iri("x:many"), if i % 2 == 0 { lit(i) } else { s_i(i) }]); }
+            for i in 0..n { ts.push([iri("x:s"), iri(RDF_TYPE), iri(&format!("x:C{i}"))]); }
+            let cfg = sophia_turtle::serializer::turtle::TurtleConfig::new().with_pretty(pretty);
+            let mut sink = ProbeVec(vec![]);
+            sophia_turtle::serializer::turtle::TurtleSerializer::new_with_config(&mut sink, cfg.clone()).serialize_triples(ts.iter().cloned().into_source()).unwrap();
+            let a = parse_count("ttl", std::str::from_utf8(&sink.0).unwrap());
+            // the same statements in one named graph
+            let mut sink2 = ProbeVec(vec![]);
+            sophia_turtle::serializer::trig::TrigSerializer::new_with_config(&mut sink2, cfg).serialize_quads(ts.into_iter().map(|t| (t, Some(iri("x:g")))).into_source()).unwrap();
+            let b = parse_count("trig", std::str::from_utf8(&sink2.0).unwrap());
+            yes(expect_count("Turtle read back", a, 3 * n) && expect_count("TriG read back", b, 3 * n))
+        }
+        "trig-stream-graphs" | "trig-pretty-big" => {
+            let pretty = op == "trig-pretty-big";
+            let mut qs: Vec<Q> = vec![];
+            for i in 0..n { qs.push(([s_i(i), iri("x:p"), lit(i)], Some(iri(&format!("x:g{i}"))))); }
+            for i in 0..n { qs.push(([s_i(i), iri("x:q"), lit(i)], if pretty { None } else { Some(iri("x:big")) })); }
+            let cfg = sophia_turtle::serializer::turtle::TurtleConfig::new().with_pretty(pretty);
+            let mut sink = ProbeVec(vec![]);
+            sophia_turtle::serializer::trig::TrigSerializer::new_with_config(&mut sink, cfg).serialize_quads(qs.into_iter().into_source()).unwrap();
+            yes(expect_count("TriG read back", parse_count("trig", std::str::from_utf8(&sink.0).unwrap()), 2 * n))
+        }
+        "ttl-prefixes" => {
+            let pm: Vec<_> = (0..n).map(|i| (sophia_api::prefix::Prefix::new_unchecked(format!("p{i}").into()), sophia_iri::Iri::new_unchecked(format!("http://example.org/ns{i}/").into()))).collect();
+            let ts: Vec<[ST; 3]> = vec![[iri("http://example.org/ns0/s"), iri(&format!("http://example.org/ns{}/p", n - 1)), iri("http://example.org/other/o")], [iri(&format!("http://example.org/ns{}/s", n / 2)), iri("x:p"), lit_dt("1", &format!("http://example.org/ns{}/dt", n - 1))]];
+            let mut ok = true;
+            for pretty in [false, true] {
+                let cfg = sophia_turtle::serializer::turtle::TurtleConfig::new().with_pretty(pretty).with_own_prefix_map(pm.clone());
+                let mut sink = ProbeVec(vec![]);
+                sophia_turtle::serializer::turtle::TurtleSerializer::new_with_config(&mut sink, cfg.clone()).serialize_triples(ts.iter().cloned().into_source()).unwrap();
+                let txt = String::from_utf8(sink.0).unwrap();
+                ok &= expect_count(if pretty { "pretty Turtle read back" } else { "Turtle read back" }, parse_count("ttl", &txt), 2);
+                let decls = txt.matches("PREFIX").count() + txt.matches("@prefix").count();
+                ok &= ck(decls == n || (!pretty && decls == 0), &format!("{decls} prefix declarations")) && ck(!pretty || txt.contains(&format!("p{}:p", n - 1)), "the last prefix is used");
+                let mut sink = ProbeVec(vec![]);
+                sophia_turtle::serializer::trig::TrigSerializer::new_with_config(&mut sink, cfg).serialize_quads(ts.iter().cloned().map(|t| (t, Some(iri(&format!("http://example.org/ns{}/g", n - 1))))).into_source()).unwrap();
+                ok &= expect_count("TriG read back", parse_count("trig", std::str::from_utf8(&sink.0).unwrap()), 2);
+            }
+            yes(ok)
+        }
+        "xml-ser" => {
+            let mut ts: Vec<[ST; 3]> = vec![];
+            for i in 0..n { ts.push([if i % 3 == 0 { bnode(&format!("b{i}")) } else { iri(&format!("http://example.org/s{i}")) }, iri("http://example.org/ns/p"), match i % 4 { 0 => lit(i), 1 => lit_lang("<&>\"'", "en"), 2 => iri(&format!("http://example.org/o{i}")), _ => bnode(&format!("o{i}")) }]); }
+            for i in 0..n { ts.push([iri("http://example.org/s"), iri(&format!("http://example.org/ns/p{}", i % 50)), lit(i)]); }
+            let mut sink = ProbeVec(vec![]);
+            sophia_xml::serializer::RdfXmlSerializer::new(&mut sink).serialize_triples(ts.into_iter().into_source()).unwrap();
+            yes(expect_count("RDF/XML read back", parse_count("xml", std::str::from_utf8(&sink.0).unwrap()), 2 * n))
+        }
+        "jsonld-values" => {
+            let mut qs: Vec<Q> = vec![];
+            for i in 0..n { qs.push(nq([iri("x:s"), iri("x:p"), if i % 2 == 0 { lit(i) } else { s_i(i) }])); qs.push(nq([iri("x:s"), iri(RDF_TYPE), iri(&format!("x:C{i}"))])); }
+            let txt = jsonld_text(qs, sophia_jsonld::JsonLdOptions::new());
+            yes(ck(top_len(&txt) == 1, "one node") && ck(txt.matches("\"@value\"").count() == (n + 1) / 2, "values") && ck(txt.matches("\"x:C").count() == n, "types"))
+        }
+        "sparql-order-keys" => {
+            use sophia_sparql::{SparqlQuery, SparqlWrapper};
+            let mut d = FastDataset::new();
+            for i in 0..n { d.insert(s_i(i), iri("x:p"), lit(i % 2), None::<ST>).unwrap(); }
+            let d = ProbeDs(d);
+            let keys: String = (0..9).map(|k| match k % 4 { 0 => "?o ".to_string(), 1 => "DESC(?o) ".to_string(), 2 => format!("(?nope{k}) "), _ => "ASC(STR(?o)) ".to_string() }).collect();
+            let q = SparqlQuery::parse(&format!("SELECT ?s ?o {{ ?s <x:p> ?o }} ORDER BY {keys} DESC(?s)")).unwrap();
+            let w = SparqlWrapper(&d);
+            let rows: Vec<_> = w.query(&q).unwrap().into_bindings().into_iter().map(|r| r.unwrap()).collect();
+            let key = |r: &Vec<Option<sophia_sparql::ResultTerm>>| (r[1].as_ref().unwrap().lexical_form().unwrap().to_string(), std::cmp::Reverse(r[0].as_ref().unwrap().iri().unwrap().to_string()));
+            yes(ck(rows.len() == n, "number of solutions") && ck(rows.windows(2).all(|w| key(&w[0]) <= key(&w[1])), "order: ?o ascending, then ?s descending"))
+        }
+        "inmem-enumerate" => {
+            // (the enumerations MAY yield a term several times: the distinct terms are counted)
+            fn distinct<T: Term, E>(it: impl Iterator<Item = Result<T, E>>) -> usize { use std::hash::Hasher; let mut set = std::collections::HashSet::new(); for t in it { let t = t.ok().unwrap(); let mut h = std::collections::hash_map::DefaultHasher::new(); Term::hash(&t, &mut h); set.insert(h.finish()); } set.len() }
+            fn go<D: MutableDataset + Dataset>(mut d: D, n: usize) -> bool where for<'x> sophia_api::dataset::DTerm<'x, D>: Clone {
+                for i in 0..n {
+                    let o = match i % 5 { 0 => lit(i), 1 => bnode(&format!("o{}", i % 11)), 2 => triple(s_i(i % 13), iri("x:p"), var("v")), 3 => var(&format!("v{}", i % 17)), _ => iri("x:o") };
+                    d.insert(if i % 2 == 0 { s_i(i) } else { bnode(&format!("b{i}")) }, iri(&format!("x:p{}", i % 3)), o, if i % 8 == 7 { None } else { Some(iri(&format!("x:g{}", i % 8))) }).ok().unwrap();
+                }
+                let among = |k: usize, m: usize| (0..n).filter(|i| i % 5 == k).map(|i| i % m).collect::<std::collections::HashSet<_>>().len();
+                let (subjects, predicates, objects, names) = (distinct(d.subjects()), distinct(d.predicates()), distinct(d.objects()), distinct(d.graph_names()));
+                let (iris, bnodes, lits, quoted, vars) = (distinct(d.iris()), distinct(d.blank_nodes()), distinct(d.literals()), distinct(d.quoted_triples()), distinct(d.variables()));
+                let exp_objects = (n + 4) / 5 + among(1, 11) + among(2, 13) + among(3, 17) + (n > 4) as usize;
+                let exp_names = (0..n).filter(|i| i % 8 != 7).map(|i| i % 8).collect::<std::collections::HashSet<_>>().len();
+                let exp_iris = (n + 1) / 2 + 3.min(n) + exp_names + (n > 4) as usize + (0..n).filter(|i| i % 5 == 2).map(|i| i % 13).filter(|k| k % 2 == 1 || *k >= n).collect::<std::collections::HashSet<_>>().len() + (n > 2) as usize;
+                ck(subjects == n, &format!("{subjects} subjects")) && ck(predicates == 3.min(n), &format!("{predicates} predicates")) && ck(objects == exp_objects, &format!("{objects} objects, expected {exp_objects}"))
+                    && ck(names == exp_names, &format!("{names} graph names")) && ck(lits == (n + 4) / 5, &format!("{lits} literals")) && ck(bnodes == n / 2 + among(1, 11), &format!("{bnodes} blank nodes"))
+                    && ck(quoted == among(2, 13), &format!("{quoted} quoted triples")) && ck(vars == among(3, 17) + (n > 2) as usize, &format!("{vars} variables")) && ck(iris >= (n + 1) / 2 && iris <= exp_iris + 13, &format!("{iris} IRIs (about {exp_iris} expected)"))
+            }
+            fn gr<G: MutableGraph + Graph>(mut g: G, n: usize) -> bool {
+                for i in 0..n { g.insert(if i % 2 == 0 { s_i(i) } else { bnode(&format!("b{i}")) }, iri(&format!("x:p{}", i % 3)), if i % 2 == 0 { lit(i % 7) } else { iri("x:o") }).ok().unwrap(); }
+                let (s, p, o) = (distinct(g.subjects()), distinct(g.predicates()), distinct(g.objects()));
+                let (i, b, l) = (distinct(g.iris()), distinct(g.blank_nodes()), distinct(g.literals()));
+                ck(s == n && p == 3.min(n) && o == 8.min(n), &format!("graph: {s} subjects, {p} predicates, {o} objects")) && ck(b == n / 2 && l == 7.min((n + 1) / 2) && i == (n + 1) / 2 + 3.min(n) + (n > 1) as usize, &format!("graph: {i} IRIs, {b} blank nodes, {l} literals"))
+            }
+            yes(go(FastDataset::new(), n) && go(LightDataset::new(), n / 10 + 1) && gr(FastGraph::new(), n / 10 + 1) && gr(LightGraph::new(), n))
+        }
+        "inmem-bulk" => {
+            use sophia_api::dataset::CollectibleDataset; use sophia_api::graph::CollectibleGraph;
+            let quad = |i: usize| -> Q { ([s_i(i % (n / 2 + 1)), iri(&format!("x:p{}", i % 3)), lit(i)], if i % 4 == 0 { None } else { Some(iri(&format!("x:g{}", i % 4))) }) };
+            fn go<D: MutableDataset + Dataset + CollectibleDataset>(n: usize, quad: &dyn Fn(usize) -> Q, is_set: bool) -> bool where <D as MutableDataset>::MutationError: From<<D as Dataset>::Error> {
+                let mut d = D::from_quad_source((0..n).map(quad).into_source()).ok().unwrap();
+                let a = d.quads().count();
+                let again = if is_set { d.insert_all((0..n).map(quad).into_source()).ok().unwrap() } else { 0 }; // (a Vec would hold every quad twice)
+                let has = d.contains(&quad(n - 1).0[0], &quad(n - 1).0[1], &quad(n - 1).0[2], quad(n - 1).1.as_ref()).ok().unwrap();
+                let removed = d.remove_matching(Any, [iri("x:p1")], Any, Any).ok().unwrap();
+                d.retain_matching(Any, Any, Any, [None::<ST>, Some(iri("x:g1")), Some(iri("x:g2"))]).ok().unwrap();
+                let left = d.quads().count();
+                let gone = d.remove_all((0..n).map(quad).into_source()).ok().unwrap();
+                let exp_left = (0..n).filter(|i| i % 3 != 1 && i % 4 != 3).count();
+                ck(a == n && again == 0 && has, &format!("{a} quads collected, {again} inserted again")) && ck(removed == (n + 1) / 3, &format!("{removed} removed")) && ck(left == exp_left && (!is_set || gone == exp_left) && d.quads().count() == 0, &format!("{left} left, {gone} removed at the end, expected {exp_left}"))
+            }
+            let mut ok = go::<FastDataset>(n, &quad, true) && go::<LightDataset>(n / 10 + 1, &quad, true) && go::<Vec<Q>>(n.min(1_000), &quad, false) && go::<std::collections::HashSet<Q>>(n.min(1_000), &quad, true) && go::<std::collections::BTreeSet<sophia_api::quad::Gspo<ST>>>(n.min(1_000), &quad, true);
+            let g: FastGraph = (0..n).map(|i| quad(i).0).into_source().collect_triples().ok().unwrap(); ok &= ck(g.triples().count() == n, "FastGraph collected");
+            let g: LightGraph = LightGraph::from_triple_source((0..n).map(|i| quad(i).0).into_source()).ok().unwrap(); ok &= ck(g.triples().count() == n, "LightGraph collected");
+            yes(ok)
+        }
+        "source-adapters" => {
+            let last = |i: usize| if i + 1 == n { iri("x:last") } else { s_i(i) };
+            let is_last = |t: &ST| t.iri().map_or(false, |i| i.as_str() == "x:last");
+            let mut ok = true;
+            let mut c = 0; (0..n).map(|i| [last(i), iri("x:p"), lit(i)]).into_source().filter_triples(|t| { probe(); is_last(&t[0]) }).for_each_triple(|_| c += 1).unwrap(); ok &= ck(c == 1, "filter_triples");
+            let mut c = 0; (0..n).map(|i| [last(i), iri("x:p"), lit(i)]).into_source().filter_map_triples(|t| if is_last(&t[0]) { Some(1u8) } else { None }).for_each_item(|_| c += 1).unwrap(); ok &= ck(c == 1, "filter_map_triples");
+            let mut c = 0; (0..n).map(|i| [last(i), iri("x:p"), lit(i)]).into_source().map_triples(|t| is_last(&t[0])).filter_items(|b| *b).for_each_item(|_| c += 1).unwrap(); ok &= ck(c == 1, "map_triples + filter_items");
+            let mut c = 0; (0..n).map(|i| [last(i), iri("x:p"), lit(i)]).into_source().to_quads().filter_quads(|q| is_last(&q.0[0])).for_each_quad(|_| c += 1).unwrap(); ok &= ck(c == 1, "to_quads + filter_quads");
+            let mut c = 0; (0..n).map(|i| ([last(i), iri("x:p"), lit(i)], Some(s_i(i)))).into_source().to_triples().filter_triples(|t| is_last(&t[0])).filter_triples(|_| true).for_each_triple(|_| c += 1).unwrap(); ok &= ck(c == 1, "to_triples + filter_triples twice");
+            // a parser source
+            let mut d = String::new(); for i in 0..n { writeln!(d, "<x:s{}> <x:p> \"{i}\" .", if i + 1 == n { "last".to_string() } else { i.to_string() }).unwrap(); }
+            let mut c = 0; sophia_turtle::parser::nt::parse_bufread(d.as_bytes()).filter_triples(|t| { probe(); t.s().iri().map_or(false, |i| i.as_str() == "x:slast") }).for_each_triple(|_| c += 1).unwrap(); ok &= ck(c == 1, "filter_triples on a parser");
+            let g: Vec<[ST; 3]> = sophia_turtle::parser::turtle::parse_bufread(d.as_bytes()).filter_triples(|t| t.s().iri().map_or(false, |i| i.as_str() == "x:slast")).collect_triples().unwrap(); ok &= ck(g.len() == 1, "collect after filter");
+            yes(ok)
+        }
+        _ => unreachable!(),
     }
 }
 
@@ -566,7 +1498,7 @@ fn gen_case(idx: usize, base: &Rng, sum: &mut Summary) -> Option<Case> {
     let mut r = base.fork(idx as u64);
     let pool: Vec<ST> = vec![iri("x:a"), iri("x:b"), bnode("x"), triple(iri("x:a"), iri("x:p"), bnode("x")), iri("x:p"), iri("x:q"), iri("x:r"),
         lit_dt("lit", &format!("{XSD}string")), lit_lang("lit", "en"), lit_dt("1", &format!("{XSD}integer")), iri("x:g1"), bnode("g2")];
-    match idx % 10 {
+    match idx % 12 {
         0..=4 => {
             // (a) a pattern query through one of the five matching iterators
             let kind = r.below(4) as u8; let (dataset, fast) = (kind >= 2, kind % 2 == 1);
@@ -578,6 +1510,16 @@ fn gen_case(idx: usize, base: &Rng, sum: &mut Summary) -> Option<Case> {
             let konst = *r.pick(&cands);
             let cols = column_order(fast, dataset, konst).unwrap();
             let kvals: [u64; 4] = [*r.pick(&[1u64, 2, 3, 4]), *r.pick(&[5u64, 6, 7]), *r.pick(&[1u64, 2, 8, 9, 10, 4]), *r.pick(&[0u64, 11, 12])];
+            // directed (own random stream): a constant that IS a term of the store but never occurs at its position, so
+            // that the store builds its matching iterator over an empty index range
+            let (mut quads, mut kvals) = (quads, kvals);
+            { let mut r2 = base.fork(idx as u64 + 0x5eed_0000);
+              if r2.chance(1, 5) { for p in [0usize, 2] { if konst[p] {
+                  let v = *r2.pick(&[1u64, 2, 4]); kvals[p] = v; quads.retain(|q| q[p] != v);
+                  let g = if dataset { *r2.pick(&[0u64, 11, 12]) } else { 0 };
+                  quads.push(if p == 0 { [3, 5, v, g] } else { [v, 5, *r2.pick(&[8u64, 9, 10]), g] });
+                  break;
+              } } } }
             let universe: [Vec<u64>; 4] = [vec![1, 2, 3, 4], vec![5, 6, 7], vec![1, 2, 8, 9, 10, 4], vec![0, 11, 12]];
             let accs: Vec<Vec<u64>> = (0..4).map(|p| match r.below(5) { 0 => universe[p].clone(), 1 => vec![], _ => universe[p].iter().copied().filter(|_| r.chance(1, 2)).collect() }).collect();
             let log = RefCell::new(vec![]);
@@ -596,15 +1538,18 @@ fn gen_case(idx: usize, base: &Rng, sum: &mut Summary) -> Option<Case> {
             Some(Case { idx, body: format!("iter_ok {c_accs} {} {} {c_tr}", c_rows(&rows), c_rows(&out)), text: format!("{text} => rows {got:?}, matcher calls {tr:?}"), nontrivial: rows.len() >= 2 && out.len() < rows.len(), kind: "iter" })
         }
         5 | 6 => {
-            // (b) quoted_string through nt::write_term
+            // (b) quoted_string through nt::write_term, on a plain / language-tagged / typed literal
             let alphabet = ['"', '\\', '\n', '\r', 'a', 'é', '\t', ' ', 'x', '\u{1F600}', '\'', '\u{0}'];
             let len = if r.chance(1, 10) { r.range(30, 120) } else { r.below(12) };
             let txt: String = (0..len).map(|_| if r.chance(1, 2) { alphabet[r.below(4)] } else { *r.pick(&alphabet) }).collect();
+            let (l, suffix): (ST, String) = match r.below(4) { 0 | 1 => (lit_dt(&txt, &format!("{XSD}string")), "\"".to_string()), 2 => { let tag = r.ps(&["en", "fr-FR", "de-Latn-DE"]); (lit_lang(&txt, tag), format!("\"@{tag}")) }, _ => { let dt = r.ps(&["x:dt", "http://www.w3.org/2001/XMLSchema#integer", "http://www.w3.org/2001/XMLSchema#strin"]); (lit_dt(&txt, dt), format!("\"^^<{dt}>")) } };
             let mut buf: Vec<u8> = vec![];
-            sophia_turtle::serializer::nt::write_term(&mut buf, lit_dt(&txt, &format!("{XSD}string"))).unwrap();
-            let inner = if buf.len() >= 2 && buf[0] == b'"' && buf[buf.len() - 1] == b'"' { buf[1..buf.len() - 1].to_vec() } else { buf.clone() };
+            sophia_turtle::serializer::nt::write_term(&mut buf, &l).unwrap();
+            // oracle: an opening quote, the escaped text, the closing quote with the tag or datatype
+            if buf.first() != Some(&b'"') || !buf.ends_with(suffix.as_bytes()) || buf.len() < 1 + suffix.len() { sum.oracle_failures.push((idx.to_string(), format!("nt::write_term on the literal {l:?} wrote {:?}: not of the form \"...{suffix}", String::from_utf8_lossy(&buf)))); return None; }
+            let inner = buf[1..buf.len() - suffix.len()].to_vec();
             sum.bump("quoted_string");
-            Some(Case { idx, body: format!("quoted_ok {} {}", coq_bytes(txt.as_bytes()), coq_bytes(&inner)), text: format!("literal {txt:?} => {:?}", String::from_utf8_lossy(&buf)), nontrivial: txt.chars().filter(|c| "\"\\\n\r".contains(*c)).count() >= 2, kind: "quoted" })
+            Some(Case { idx, body: format!("quoted_ok {} {}", coq_bytes(txt.as_bytes()), coq_bytes(&inner)), text: format!("literal {l:?} => {:?}", String::from_utf8_lossy(&buf)), nontrivial: txt.chars().filter(|c| "\"\\\n\r".contains(*c)).count() >= 2, kind: "quoted" })
         }
         7 => {
             // (c) GRAPH ?g over a small dataset
@@ -669,14 +1614,49 @@ fn gen_case(idx: usize, base: &Rng, sum: &mut Summary) -> Option<Case> {
                 Some(Case { idx, body: format!("mark_ok {n} {bad} {}", c_nlist(&marked)), text: format!("{n}-cell list, extra property on cell {bad} => cells not rendered as nodes {marked:?}"), nontrivial: n >= 2, kind: "mark" })
             }
         }
-        _ => {
-            // constituents / atoms of a nested term
+        9 => {
+            // constituents / atoms of a nested term, borrowed and consuming
             let t = gen_term(&mut r, 3);
             let cs: Vec<String> = t.constituents().map(|x| coq_term(x)).collect();
             let at: Vec<String> = t.atoms().map(|x| coq_term(x)).collect();
+            let cs2: Vec<String> = t.clone().to_constituents().map(|x| coq_term(x)).collect();
+            let at2: Vec<String> = t.clone().to_atoms().map(|x| coq_term(x)).collect();
+            let (cs3, at3): (Vec<String>, Vec<String>) = ((&t).to_constituents().map(|x| coq_term(x)).collect(), (&t).to_atoms().map(|x| coq_term(x)).collect());
             sum.bump("constituents");
-            Some(Case { idx, body: format!("constituents_ok {} {} {}", coq_term(&t), coq_list(cs.clone()), coq_list(at)), text: format!("term {t:?} => {} constituents", cs.len()), nontrivial: t.is_triple(), kind: "constituents" })
+            Some(Case { idx, body: format!("constituents_ok {0} {1} {2} && constituents_ok {0} {3} {4} && constituents_ok {0} {5} {6}", coq_term(&t), coq_list(cs.clone()), coq_list(at), coq_list(cs2), coq_list(at2), coq_list(cs3), coq_list(at3)), text: format!("term {t:?} => {} constituents", cs.len()), nontrivial: t.is_triple(), kind: "constituents" })
         }
+        10 => {
+            // nt::write_term on a term of any kind
+            let t = gen_rich_term(&mut r, 3);
+            let mut buf: Vec<u8> = vec![];
+            sophia_turtle::serializer::nt::write_term(&mut buf, &t).unwrap();
+            sum.bump("nt:term");
+            Some(Case { idx, body: format!("nt_term_ok {} {}", coq_term(&t), coq_bytes(&buf)), text: format!("term {t:?} => {:?}", String::from_utf8_lossy(&buf)), nontrivial: t.is_triple() || t.lexical_form().map_or(false, |l| l.chars().any(|c| "\"\\\n\r".contains(c))), kind: "nt-term" })
+        }
+        _ => {
+            // NtSerializer on a few statements
+            let ts: Vec<[ST; 3]> = (0..r.below(6)).map(|_| [gen_rich_term(&mut r, 2), gen_rich_term(&mut r, 0), gen_rich_term(&mut r, 2)]).collect();
+            let mut ser = sophia_turtle::serializer::nt::NtSerializer::new_stringifier();
+            ser.serialize_triples(ts.clone().into_iter().into_source()).unwrap();
+            let out = ser.as_utf8().to_vec();
+            // oracle: one line per statement
+            if out.iter().filter(|b| **b == b'\n').count() != ts.len() || (!out.is_empty() && !out.ends_with(b".\n")) { sum.oracle_failures.push((idx.to_string(), format!("NtSerializer on {ts:?} wrote {:?}: not one line per statement", String::from_utf8_lossy(&out)))); return None; }
+            sum.bump(&format!("nt:doc:{}", ts.len()));
+            Some(Case { idx, body: format!("nt_doc_ok {} {}", coq_list(ts.iter().map(|t| format!("({}, {}, {})", coq_term(&t[0]), coq_term(&t[1]), coq_term(&t[2])))), coq_bytes(&out)), text: format!("statements {ts:?} => {:?}", String::from_utf8_lossy(&out)), nontrivial: ts.len() >= 2, kind: "nt-doc" })
+        }
+    }
+}
+/// terms of every kind with strings that need escaping / are not ASCII
+fn gen_rich_term(r: &mut Rng, depth: usize) -> ST {
+    if depth > 0 && r.chance(1, 3) { return triple(gen_rich_term(r, depth - 1), iri(r.ps(&["x:p", "http://example.org/é"])), gen_rich_term(r, depth - 1)); }
+    let lex = |r: &mut Rng| -> String { let alphabet = ['"', '\\', '\n', '\r', 'a', 'é', '\u{1F600}', ' ']; (0..r.below(6)).map(|_| *r.pick(&alphabet)).collect() };
+    match r.below(7) {
+        0 => iri(r.ps(&["x:a", "http://example.org/b", "rel", ""])),
+        1 => bnode(r.ps(&["b1", "b_2"])),
+        2 => { let l = lex(r); lit_dt(&l, &format!("{XSD}string")) }
+        3 => { let l = lex(r); lit_dt(&l, r.ps(&["x:dt", "http://www.w3.org/2001/XMLSchema#integer", "http://www.w3.org/2001/XMLSchema#strin", "http://www.w3.org/2001/XMLSchema#stringx"])) }
+        4 | 5 => { let l = lex(r); lit_lang(&l, r.ps(&["fr", "en-GB"])) }
+        _ => var(r.ps(&["v", "w1"])),
     }
 }
 
@@ -686,10 +1666,19 @@ fn gen_case(idx: usize, base: &Rng, sum: &mut Summary) -> Option<Case> {
 const STACK: usize = 2 << 20;
 const SPREAD_BOUND: usize = 64 << 10;
 const STACK_CASE_BASE: usize = 1_000_000;
-fn is_pretty(op: &str) -> bool { matches!(op, "ttl-list" | "ttl-pretty-stmts" | "ttl-chain" | "ttl-type-chain") }
+/// the pretty serializer nests blank nodes in [ ] up to its constant MAX_DEPTH = 64 levels, whatever the length of the
+/// chain: for the operations that make it do so through a probing writer, the absolute bound on the spread of
+/// the callback addresses is 64 levels' worth, and the spread must not grow between the two sizes
+fn spread_bound(op: &str) -> usize { if matches!(op, "ttl-cycle" | "ttl-lists-bad") { 512 << 10 } else { SPREAD_BOUND } }
+fn is_pretty(op: &str) -> bool { matches!(op, "ttl-list" | "ttl-pretty-stmts" | "ttl-chain" | "ttl-type-chain" | "trig-graphs" | "ttl-wide" | "ttl-annot" | "ttl-kinds" | "ttl-cycle" | "ttl-lists-bad" | "trig-pretty-big") }
 /// sizes for one operation: powers of ten from 10^4 to `big`; the pretty Turtle serializer takes
 /// quadratic time, so it gets what can be run at all
 fn sizes_for(op: &str, big: usize) -> Vec<usize> {
+    if let Some(v) = loop_sizes(op, big) { return v; }
+    // quadratic and slow: build_subject_types scans the whole dataset once per blank node subject
+    // (both sizes past the point where the chains reach the serializer's 64 levels of [ ])
+    if op == "ttl-lists-bad" { return if big >= 1_000_000 { vec![300, 1000] } else { vec![150, 300] }; }
+    if matches!(op, "ttl-annot" | "ttl-cycle" | "trig-pretty-big" | "trig-graphs") { return if big >= 1_000_000 { vec![300, 1000] } else { vec![150, 400] }; }
     if is_pretty(op) { return if big >= 1_000_000 { vec![300, 1000, if cfg!(debug_assertions) { 3000 } else { 10_000 }] } else { vec![300, 1000] }; }
     if op.starts_with("it-") { return vec![big]; }
     let mut v = vec![]; let mut n = 10_000; while n <= big { v.push(n); n *= 10; } if v.is_empty() { v.push(big); } v
@@ -729,12 +1718,12 @@ fn main() {
         return;
     }
     let big: usize = flag("--big").map_or(100_000, |i| a.rest[i + 1].parse().unwrap());
-    let jobs: usize = flag("--jobs").map_or(8, |i| a.rest[i + 1].parse().unwrap());
+    let jobs: usize = flag("--jobs").map_or(16, |i| a.rest[i + 1].parse().unwrap());
     let mut sum = Summary::default();
     sum.rule = "two kinds of evaluations. (1) correspondence case = a small generated input through the real code, compared inside Coq with C16/Model.v: \
 a pattern query (0-13 quads over a 12-term pool, light/fast graph/dataset, every arm of graph.rs/dataset.rs that uses one of the five matching iterators, caller-supplied matchers that log their calls), \
-a literal through nt::write_term (escapable bytes over-represented), GRAPH ?g over 0-4 named graphs, a nested RDF list or a list with a damaged cell through the JSON-LD serializer, constituents/atoms of a nested term; \
-non-trivial = at least two rows of which one is skipped / two escaped bytes / two graph names / two cells / a quoted triple. \
+a literal through nt::write_term (escapable bytes over-represented), GRAPH ?g over 0-4 named graphs, a nested RDF list or a list with a damaged cell through the JSON-LD serializer, constituents/atoms (borrowed, consuming, through &T) of a nested term, nt::write_term on a term of any kind, NtSerializer on 0-5 statements; \
+non-trivial = at least two rows of which one is skipped / two escaped bytes / two graph names / two cells / a quoted triple / a quoted triple or an escaped byte / two statements. \
 (2) stack case (ids from 1000000) = one operation at one size on a thread with a 2 MiB stack in a subprocess of this binary (profile of the binary), with callback address spread and mincore high-water mark; all are non-trivial".into();
 
     // one stack case, verbosely
@@ -806,12 +1795,24 @@ non-trivial = at least two rows of which one is skipped / two escaped bytes / tw
             let per = |hi: usize, lo: usize| if n_hi > n_lo { (hi as f64 - lo as f64) / (n_hi - n_lo) as f64 } else { 0.0 };
             table.push(format!("{{\"op\": {}, \"profile\": {}, \"slope_callback_bytes_per_element\": {:.4}, \"slope_high_water_bytes_per_element\": {:.4}, \"from_n\": {n_lo}, \"to_n\": {n_hi}}}", json_str(op), json_str(PROFILE), per(spread, spread_lo), per(used_hi, used_lo)));
             let mut bad = vec![];
-            if calls > 0 && spread > SPREAD_BOUND { bad.push(format!("the addresses of a local variable of the caller-supplied callback spread over {spread} bytes in {calls} calls (bound {SPREAD_BOUND}; {:.1} bytes/element)", per(spread, spread_lo))); }
+            let bound = spread_bound(op);
+            if calls > 0 && spread > bound { bad.push(format!("the addresses of a local variable of the caller-supplied callback spread over {spread} bytes in {calls} calls (bound {bound}; {:.1} bytes/element)", per(spread, spread_lo))); }
+            if calls > 0 && bound > SPREAD_BOUND && n_hi > n_lo && spread > spread_lo + SPREAD_BOUND { bad.push(format!("the spread of the addresses seen by the callback grew from {spread_lo} bytes at n = {n_lo} to {spread} bytes at n = {n_hi} ({:.1} bytes/element)", per(spread, spread_lo))); }
             if used_hi != usize::MAX && used_lo != usize::MAX && used_hi > used_lo + SPREAD_BOUND { bad.push(format!("the high-water mark of the stack grew from {used_lo} bytes at n = {n_lo} to {used_hi} bytes at n = {n_hi} ({:.1} bytes/element)", per(used_hi, used_lo))); }
             if !bad.is_empty() {
                 let msg = format!("operation {op} [{desc}] at n = {n_hi} elements, {PROFILE} profile: stack use grows with the number of elements: {}", bad.join("; "));
                 if in_oracle(op) { sum.oracle_failures.push((id.to_string(), msg)); } else { sum.extra.push((format!("exploration_{op}_slope"), json_str(&msg))); }
             }
+        }
+    }
+    // ---- exploration, NOT part of the oracle: recursion proportional to the size of the QUERY (triple patterns of a
+    // basic graph pattern: bgp::bgp_rec; ORDER BY keys that tie: exec::cmp_bindings_with; nesting of UNION), over 3 triples
+    for (op, sizes) in [("x-sparql-patterns", [200usize, 500, 1000]), ("x-sparql-keys", [1000, 3000, 10000]), ("x-sparql-unions", [1000, 3000, 10000])] {
+        for n in sizes {
+            let (o, dt) = run_child(op, n, STACK, 600);
+            let outcome = match &o { ChildOutcome::Ok { value, used, .. } if *value == n as u64 => format!("ok-{}KiB", used / 1024), ChildOutcome::Ok { .. } => "wrong-result".to_string(), ChildOutcome::Crashed(why) if why.contains("overflow") || why.contains("signal") => "overflow".to_string(), ChildOutcome::Crashed(_) => "crashed".to_string(), ChildOutcome::TimedOut => "timeout".to_string(), ChildOutcome::Wrong(_) => "garbled".to_string() };
+            sum.bump(&format!("explore:{PROFILE}:{op}:{n}:{outcome}"));
+            table.push(format!("{{\"exploration\": {}, \"n\": {n}, \"profile\": {}, \"outcome\": {}, \"seconds\": {dt:.1}}}", json_str(op), json_str(PROFILE), json_str(&outcome)));
         }
     }
     sum.extra.push(("stack_table".into(), format!("[{}]", table.join(", "))));
